@@ -97,6 +97,7 @@ struct Node {
   int sel = -1;           // switch selector value / early-return value
   int flag = 0;           // switch: cases fall through into the next case
   int ntab = 4;           // switch: table entries
+  int pad = 0;            // switch: every case starts with a nop (exclusion of a known defect)
   int hl = 0;             // high-level kind (class counters)
   std::vector<std::vector<Node>> parts;
 };
@@ -164,8 +165,1875 @@ const char* const kHName[] = { "alu", "unary", "imul", "lea", "movx", "shift_imm
           "idiom", "temp", "vec_gp_move", "vec_ldst", "vec_alu", "mask_op", "call",
           "if", "loop", "irreducible", "switch", "next", "end", "retif" };
 
-struct Excl { bool and0 = false, shift0p = false, xorpart = false, andsame32 = false, other[8] = {}; };
+// Trigger shapes of defects found by this harness. A failing case is re-decoded with one class excluded at a time: when the
+// failure disappears the failure key names the class ("miscompiled:<class>"); a class whose key is a listed known finding is
+// excluded by construction (and counted) so that the search continues.
+enum { EX_RMNARROW, EX_WOPART, EX_CMPXCHG, EX_BTMEM, EX_AND0, EX_RO32, EX_KMOVW, EX_JTCLOBBER, EX_COUNT_ };
+const char* const kExName[EX_COUNT_] = { "rm-narrow-write", "same-reg-wo-partial", "cmpxchg-accumulator", "bt-mem-reg-offset", "and-zero-read-only", "same-reg-ro-zero-extend", "kmovw-gp-mem", "jump-table-target-clobbered" };
+struct Excl { bool on[EX_COUNT_] = {}; };
 
-#include "c05_parts.inc"
+// ------------------------------------------------------------------------------------------------
+// Decoder: Case -> Prog (robust: every integer vector is a valid program)
+// ------------------------------------------------------------------------------------------------
+struct Dec {
+  const Prog& P; const vh::Op& op; size_t pos = 1;
+  Dec(const Prog& p, const vh::Op& o) : P(p), op(o) {}
+  int64_t raw() { return pos < op.size() ? op[pos++] : 0; }
+  int u(int n) { return umod(raw(), n); }
+  int gp() { int64_t v = raw(); if (v < 0) v = -(v + 1); int hot = std::min(P.ng, 6); return (v & 1) ? int((v >> 1) % hot) : int((v >> 1) % P.ng); }
+  int gp64() { if (P.idx64.empty()) { raw(); return -1; } return P.idx64[size_t(u(int(P.idx64.size())))]; }
+  int vec() { return u(P.nv); }
+  int msk() { return u(P.nk); }
+  int width() { static const int t[4] = {32, 64, 8, 16}; return t[u(4)]; }
+  int64_t imm() {
+    static const int64_t tbl[] = {1, 0, -1, 2, 5, 0x7f, 0x80, 0xff, 0x100, 0x7fff, 0x8000, 0xffff, 0x10000, 0x7fffffff, -0x80000000LL, 0x55555555, -2, 31, 32, 63};
+    int s = u(24); int64_t r = raw();
+    return s < 20 ? tbl[s] : r;
+  }
+};
+inline int64_t fit_imm(int64_t v, int w) { return w == 8 ? int8_t(v) : w == 16 ? int16_t(v) : int32_t(v); }
+
+struct Lower {
+  Prog& P; const Excl& ex; Node* out = nullptr;
+  Lower(Prog& p, const Excl& e) : P(p), ex(e) {}
+  int ty(int r) const { return r >= 0 && size_t(r) < P.gty.size() ? P.gty[size_t(r)] : 64; }
+  int effw(int w, int a = -1, int b = -1, int c = -1) const { for (int r : {a, b, c}) if (r >= 0) w = std::min(w, ty(r)); return w; }
+  MOp& push(int k, int sub, int w) { out->ops.emplace_back(); MOp& m = out->ops.back(); m.k = k; m.sub = sub; m.w = w; P.n_static_ops++; return m; }
+  int new_temp(int w) { P.gty.push_back(uint8_t(w)); P.ntemps++; return int(P.gty.size()) - 1; }
+
+  // memory operand; emits the index guard (and idx, 7) when an index register is used
+  MemRef mem(Dec& d, int wbytes, bool allow_const, bool allow_idx, int align = 1) {
+    MemRef m; int s = d.u(8); int o = d.u(1 << 16); int ix = d.u(4); int sh = d.u(4);
+    if (s >= 6 && allow_const) { m.space = s == 6 ? MS_CONSTL : MS_CONSTG; m.off = o % 8; return m; }
+    if (s >= 4 && s < 6 && P.nslots > 0) { m.space = MS_SLOT; m.slot = o % P.nslots; m.off = ((o / 7) % (32 - wbytes + 1)) / align * align; return m; }
+    m.space = MS_BUF;
+    int span = SCR_SIZE - wbytes - 56;
+    m.off = (o % (span + 1)) / align * align;
+    if (allow_idx && ix == 0 && !P.idx64.empty()) {
+      m.idx = P.idx64[size_t(o / 3) % P.idx64.size()]; m.shift = sh;
+      MOp& g = push(M_ALU, A_AND, 64); g.o[0] = Opnd::R(m.idx); g.o[1] = Opnd::I(7);
+    }
+    P.n_mem++;
+    return m;
+  }
+  // flag producer: cmp/test a, b|imm|mem
+  void cond(Dec& d) {
+    int form = d.u(6); int a = d.gp(), b = d.gp(); int w = d.width(); int64_t im = d.imm();
+    bool test = form >= 4;
+    if (form == 1 || form == 5) { w = effw(w, a); MOp& m = push(M_ALU, test ? A_TEST : A_CMP, w); m.o[0] = Opnd::R(a); m.o[1] = Opnd::I(fit_imm(im, w)); }
+    else if (form == 2) { w = effw(w, a); MemRef mr = mem(d, w / 8, true, false); MOp& m = push(M_ALU, A_CMP, w); m.o[0] = Opnd::R(a); m.o[1] = Opnd::M(mr); }
+    else { w = effw(w, a, b); MOp& m = push(M_ALU, test ? A_TEST : A_CMP, w); m.o[0] = Opnd::R(a); m.o[1] = Opnd::R(b); }
+  }
+  void alu(int sub, int w, Opnd a, Opnd b) { MOp& m = push(M_ALU, sub, w); m.o[0] = a; m.o[1] = b; }
+
+  void lower(const vh::Op& op, int hk, Node& node);
+  void fix(MOp& m);
+};
+
+void Lower::lower(const vh::Op& op, int hk, Node& node) {
+  out = &node; node.kind = N_OP; node.hl = hk;
+  Dec d(P, op);
+  switch (hk) {
+    case H_ALU: {
+      static const int subs[6] = {A_ADD, A_SUB, A_AND, A_OR, A_XOR, A_MOV};
+      int sub = subs[d.u(6)], form = d.u(8), w = d.width(), dd = d.gp(), s = d.gp(); int64_t im = d.imm();
+      if (form <= 2) { w = effw(w, dd, s); alu(sub, w, Opnd::R(dd), Opnd::R(s)); }                                      // RR
+      else if (form == 3) { w = effw(w, dd); int64_t v = (sub == A_MOV && w == 64 && d.u(2)) ? im : fit_imm(im, w); alu(sub, w, Opnd::R(dd), Opnd::I(v)); }
+      else if (form <= 5) { w = effw(w, dd); MemRef m = mem(d, w / 8, true, sub == A_MOV); alu(sub, w, Opnd::R(dd), Opnd::M(m)); }   // RM
+      else if (form == 6) { w = effw(w, s); MemRef m = mem(d, w / 8, false, sub == A_MOV); alu(sub, w, Opnd::M(m), Opnd::R(s)); }    // MR
+      else { MemRef m = mem(d, w / 8, false, false); alu(sub, w, Opnd::M(m), Opnd::I(fit_imm(im, w))); }                 // MI
+      if (w < 32) P.n_partial++;
+      break;
+    }
+    case H_UNARY: {
+      int sub = d.u(4), form = d.u(4), w = d.width(), dd = d.gp(); int alt = d.u(2);
+      if (form == 3) { MemRef m = mem(d, w / 8, false, false); MOp& o = push(M_UN, sub, w); o.o[0] = Opnd::M(m); o.alt = alt; }
+      else { w = effw(w, dd); MOp& o = push(M_UN, sub, w); o.o[0] = Opnd::R(dd); o.alt = alt; }
+      if (w < 32) P.n_partial++;
+      break;
+    }
+    case H_IMUL: {
+      int form = d.u(4), w = d.width(), dd = d.gp(), s = d.gp(); int64_t im = d.imm();
+      if (w == 8) w = 32;
+      if (form == 0) { w = effw(w, dd, s); alu(A_IMUL, w, Opnd::R(dd), Opnd::R(s)); }
+      else if (form == 1) { w = effw(w, dd); MemRef m = mem(d, w / 8, true, false); alu(A_IMUL, w, Opnd::R(dd), Opnd::M(m)); }
+      else if (form == 2) { w = effw(w, dd, s); MOp& o = push(M_IMUL3, 0, w); o.o[0] = Opnd::R(dd); o.o[1] = Opnd::R(s); o.imm = fit_imm(im, w == 16 ? 16 : 32); }
+      else { w = effw(w, dd); MemRef m = mem(d, w / 8, true, false); MOp& o = push(M_IMUL3, 0, w); o.o[0] = Opnd::R(dd); o.o[1] = Opnd::M(m); o.imm = fit_imm(im, w == 16 ? 16 : 32); }
+      if (w < 32) P.n_partial++;
+      break;
+    }
+    case H_LEA: {
+      int form = d.u(3), w = d.u(2) ? 64 : 32, dd = d.gp(), a = d.gp(), b = d.gp(), sh = d.u(4); int64_t disp = int32_t(d.imm());
+      MOp& o = push(M_LEA, form, 32); o.o[0] = Opnd::R(dd);
+      if (form != 2) o.o[1] = Opnd::R(a);
+      if (form != 0) { o.o[2] = Opnd::R(b); o.imm = sh; }
+      o.cc = 0; o.w2 = (ty(form != 2 ? a : b) == 64 && ty(form != 0 ? b : a) == 64) ? 64 : 32;   // address size
+      o.w = o.w2 == 64 ? effw(w, dd) : 32;
+      o.o[3] = Opnd::I(disp);
+      break;
+    }
+    case H_MOVX: {
+      int sub = d.u(5), wd = d.u(3), dd = d.gp(), s = d.gp(), form = d.u(3);
+      int ws = (sub & 1) ? 16 : 8; int sgn = sub >= 2 ? X_SX : X_ZX;
+      int w = wd == 0 ? 32 : wd == 1 ? 64 : 16;
+      if (sub == 4) { ws = 32; w = 64; sgn = X_SX; }
+      w = effw(w, dd);
+      if (w <= ws) { if (ws == 32) { ws = 16; } if (w <= ws) ws = 8; }
+      Opnd src = Opnd::R(s);
+      if (form == 2) src = Opnd::M(mem(d, ws / 8, true, true));
+      MOp& o = push(M_MOVX, sgn, w); o.w2 = ws; o.o[0] = Opnd::R(dd); o.o[1] = src;
+      if (w < 32) P.n_partial++;
+      break;
+    }
+    case H_SHIFT_I: {
+      int sub = d.u(5), w = d.width(), dd = d.gp(), cnt = d.u(68), form = d.u(6);
+      if (cnt >= 64) cnt = cnt == 64 ? 0 : 1;
+      if (form == 5) { MemRef m = mem(d, w / 8, false, false); MOp& o = push(M_SHIFT, sub, w); o.o[0] = Opnd::M(m); o.o[1] = Opnd::I(cnt); }
+      else { w = effw(w, dd); MOp& o = push(M_SHIFT, sub, w); o.o[0] = Opnd::R(dd); o.o[1] = Opnd::I(cnt); }
+      if (w < 32) P.n_partial++;
+      break;
+    }
+    case H_SHIFT_CL: {
+      int sub = d.u(5), w = d.width(), dd = d.gp(), c = d.gp(), form = d.u(6);
+      P.n_fixed++;
+      if (form == 5) { MemRef m = mem(d, w / 8, false, false); MOp& o = push(M_SHIFT, sub, w); o.o[0] = Opnd::M(m); o.o[1] = Opnd::R(c); }
+      else { w = effw(w, dd); MOp& o = push(M_SHIFT, sub, w); o.o[0] = Opnd::R(dd); o.o[1] = Opnd::R(c); }
+      if (w < 32) P.n_partial++;
+      break;
+    }
+    case H_MULDIV: {
+      int sub = d.u(4), wsel = d.u(3), hi = d.gp(), lo = d.gp(), s = d.gp(), form = d.u(3);
+      if (P.ng < 3) { alu(A_ADD, effw(32, hi, lo), Opnd::R(hi), Opnd::R(lo)); break; }
+      while (lo == hi) lo = (lo + 1) % P.ng;
+      while (s == hi || s == lo) s = (s + 1) % P.ng;
+      int w = effw(wsel == 0 ? 32 : wsel == 1 ? 64 : 16, hi, lo, s);
+      P.n_fixed++;
+      if (sub >= D_DIV) {
+        // guarded divisor in a fresh temp: (s >> 1) | 1 is non-zero and positive at the operation width
+        int tw = w == 64 ? 64 : 32; int t = new_temp(tw);
+        if (w == 16) { MOp& z = push(M_MOVX, X_ZX, 32); z.w2 = 16; z.o[0] = Opnd::R(t); z.o[1] = Opnd::R(s); } else alu(A_MOV, tw, Opnd::R(t), Opnd::R(s));
+        if (sub == D_IDIV) { MOp& sh = push(M_SHIFT, S_SHR, tw); sh.o[0] = Opnd::R(t); sh.o[1] = Opnd::I(1); }
+        alu(A_OR, tw, Opnd::R(t), Opnd::I(1));
+        if (sub == D_DIV) { if (w < 32) alu(A_MOV, w, Opnd::R(hi), Opnd::I(0)); else alu(A_XOR, w, Opnd::R(hi), Opnd::R(hi)); }
+        else { MOp& c = push(M_CDQ, 0, w); c.o[0] = Opnd::R(hi); c.o[1] = Opnd::R(lo); }
+        s = t;
+      }
+      MOp& o = push(M_MULDIV, sub, w); o.o[0] = Opnd::R(hi); o.o[1] = Opnd::R(lo); o.o[2] = Opnd::R(s);
+      if (form == 2 && sub <= D_IMUL) { MemRef m = mem(d, w / 8, true, false); out->ops.back().o[2] = Opnd::M(m); }
+      if (w < 32) P.n_partial++;
+      break;
+    }
+    case H_CMPXCHG: {
+      int w = d.width(), dd = d.gp(), s = d.gp(), acc = d.gp(), form = d.u(3);
+      P.n_fixed++;
+      if (form == 2) { w = effw(w, s, acc); MemRef m = mem(d, w / 8, false, false); MOp& o = push(M_CMPXCHG, 0, w); o.o[0] = Opnd::M(m); o.o[1] = Opnd::R(s); o.o[2] = Opnd::R(acc); }
+      else {
+        if (P.ng < 2) { alu(A_ADD, effw(32, dd), Opnd::R(dd), Opnd::R(dd)); break; }
+        while (acc == dd) acc = (acc + 1) % P.ng;
+        w = effw(w, dd, s, acc); MOp& o = push(M_CMPXCHG, 0, w); o.o[0] = Opnd::R(dd); o.o[1] = Opnd::R(s); o.o[2] = Opnd::R(acc);
+      }
+      if (w < 32) P.n_partial++;
+      break;
+    }
+    case H_XCHG: {
+      int sub = d.u(2) ? A_XADD : A_XCHG, w = d.width(), dd = d.gp(), s = d.gp(), form = d.u(3);
+      if (form == 2) { w = effw(w, s); MemRef m = mem(d, w / 8, false, false); alu(sub, w, Opnd::M(m), Opnd::R(s)); }
+      else {
+        if (P.ng < 2) { alu(A_ADD, effw(32, dd), Opnd::R(dd), Opnd::R(dd)); break; }
+        while (s == dd) s = (s + 1) % P.ng;
+        w = effw(w, dd, s); alu(sub, w, Opnd::R(dd), Opnd::R(s));
+      }
+      if (w < 32) P.n_partial++;
+      break;
+    }
+    case H_SETCC: {
+      int cc = d.u(16), dd = d.gp(), form = d.u(3);
+      size_t before = out->ops.size();
+      Node tmp; Node* save = out; out = &tmp; cond(d); out = save;      // decode the condition first to know its registers
+      bool uses_d = false;
+      for (MOp& m : tmp.ops) for (Opnd& o : m.o) if ((o.t == T_REG && o.r == dd) || (o.t == T_MEM && o.m.idx == dd)) uses_d = true;
+      if (form == 1 && !uses_d) alu(A_XOR, 32, Opnd::R(dd), Opnd::R(dd));
+      for (MOp& m : tmp.ops) out->ops.push_back(m);
+      MOp& o = push(M_SETCC, 0, 8); o.cc = cc; o.o[0] = Opnd::R(dd);
+      if (form == 2) { MOp& z = push(M_MOVX, X_ZX, 32); z.w2 = 8; z.o[0] = Opnd::R(dd); z.o[1] = Opnd::R(dd); }
+      P.n_partial++; (void)before;
+      break;
+    }
+    case H_CMOV: {
+      int cc = d.u(16), wsel = d.u(3), dd = d.gp(), s = d.gp(), form = d.u(3);
+      cond(d);
+      int w = wsel == 0 ? 32 : wsel == 1 ? 64 : 16;
+      if (form == 2) { w = effw(w, dd); MemRef m = mem(d, w / 8, true, false); MOp& o = push(M_CMOV, 0, w); o.cc = cc; o.o[0] = Opnd::R(dd); o.o[1] = Opnd::M(m);
+        // the index guard of mem() must not sit between cmp and cmov: and clobbers flags -> mem() is called with allow_idx=false
+      } else { w = effw(w, dd, s); MOp& o = push(M_CMOV, 0, w); o.cc = cc; o.o[0] = Opnd::R(dd); o.o[1] = Opnd::R(s); }
+      if (w < 32) P.n_partial++;
+      break;
+    }
+    case H_BT: {
+      int sub = d.u(4), wsel = d.u(3), a = d.gp(), b = d.gp(), dd = d.gp(), form = d.u(2), bit = d.u(64);
+      int w = wsel == 0 ? 32 : wsel == 1 ? 64 : 16;
+      w = form ? effw(w, a) : effw(w, a, b);
+      MOp& o = push(M_BT, sub, w); o.o[0] = Opnd::R(a); o.o[1] = form ? Opnd::I(bit % w) : Opnd::R(b);
+      if (sub == B_BT) { MOp& s = push(M_SETCC, 0, 8); s.cc = d.u(2) ? 2 : 3; s.o[0] = Opnd::R(dd); P.n_partial++; }
+      break;
+    }
+    case H_CNT: {
+      int sub = d.u(3), wsel = d.u(3), dd = d.gp(), s = d.gp(), form = d.u(3);
+      int w = wsel == 0 ? 32 : wsel == 1 ? 64 : 16;
+      if (form == 2) { w = effw(w, dd); MemRef m = mem(d, w / 8, true, false); MOp& o = push(M_CNT, sub, w); o.o[0] = Opnd::R(dd); o.o[1] = Opnd::M(m); }
+      else { w = effw(w, dd, s); MOp& o = push(M_CNT, sub, w); o.o[0] = Opnd::R(dd); o.o[1] = Opnd::R(s); }
+      break;
+    }
+    case H_IDIOM: {
+      int which = d.u(22), w = d.width(), dd = d.gp();
+      w = effw(w, dd); P.n_idiom++;
+      // known-defect shapes are excluded by construction once their key is listed (counted)
+      Opnd D = Opnd::R(dd);
+      switch (which) {
+        case 0: alu(A_XOR, w, D, D); break;
+        case 1: alu(A_SUB, w, D, D); break;
+        case 2: alu(A_OR, w, D, Opnd::I(-1)); break;
+        case 3: alu(A_AND, w, D, Opnd::I(0)); break;
+        case 4: alu(A_ADD, w, D, Opnd::I(0)); break;
+        case 5: alu(A_OR, w, D, Opnd::I(0)); break;
+        case 6: alu(A_XOR, w, D, Opnd::I(0)); break;
+        case 7: alu(A_SUB, w, D, Opnd::I(0)); break;
+        case 8: case 9: case 10: case 11: case 12: { MOp& o = push(M_SHIFT, which - 8, w); o.o[0] = D; o.o[1] = Opnd::I(0); break; }
+        case 13: alu(A_AND, w, D, D); break;
+        case 14: alu(A_OR, w, D, D); break;
+        case 15: alu(A_MOV, w, D, D); break;
+        case 16: alu(A_AND, w, D, Opnd::I(-1)); break;
+        case 17: { alu(A_CMP, w, D, D); MOp& s = push(M_SETCC, 0, 8); s.cc = d.u(16); s.o[0] = D; break; }
+        case 18: { alu(A_TEST, w, D, D); MOp& s = push(M_SETCC, 0, 8); s.cc = d.u(16); s.o[0] = D; break; }
+        case 19: { MOp& o = push(M_IMUL3, 0, w == 8 ? 32 : w); o.w = effw(w == 8 ? 32 : w, dd); o.o[0] = D; o.o[1] = D; o.imm = 0; break; }
+        case 20: alu(A_OR, w, D, Opnd::I(w == 64 ? -1 : int64_t(wmask(w)))); break;   // positive all-ones mask of the operand size
+        default: alu(A_MOV, w, D, Opnd::I(0)); break;
+      }
+      if (w < 32) P.n_partial++;
+      break;
+    }
+    case H_TEMP: {
+      static const int subs[5] = {A_ADD, A_SUB, A_AND, A_OR, A_XOR};
+      int tw = d.u(2) ? 64 : 32, a = d.gp(), b = d.gp(), dd = d.gp(), s1 = subs[d.u(5)], s2 = subs[d.u(5)];
+      int t = new_temp(tw);
+      int w1 = effw(tw, a);
+      if (w1 < tw) { MOp& z = push(M_ALU, A_MOV, 32); z.o[0] = Opnd::R(t); z.o[1] = Opnd::R(a); }   // 32-bit write zero-extends the 64-bit temp
+      else alu(A_MOV, tw, Opnd::R(t), Opnd::R(a));
+      alu(s1, effw(tw, b), Opnd::R(t), Opnd::R(b));
+      alu(s2, effw(tw, dd), Opnd::R(dd), Opnd::R(t));
+      break;
+    }
+    case H_VGX: {
+      if (P.nv == 0) { int a = d.gp(); alu(A_ADD, effw(32, a), Opnd::R(a), Opnd::I(1)); break; }
+      int sub = d.u(6), x = d.vec(), g = d.gp(), lane = d.u(4); P.n_vec++;
+      if ((sub == G_MOVQ_XG || sub == G_MOVQ_GX) && ty(g) != 64) { int g2 = d.gp64(); if (g2 < 0) sub -= 2; else g = g2; }
+      MOp& o = push(M_VGX, sub, (sub == G_MOVQ_XG || sub == G_MOVQ_GX) ? 64 : 32); o.o[0] = Opnd::V(x); o.o[1] = Opnd::R(g); o.imm = lane;
+      break;
+    }
+    case H_VLDST: {
+      if (P.nv == 0) { int a = d.gp(); alu(A_SUB, effw(32, a), Opnd::R(a), Opnd::I(1)); break; }
+      int form = d.u(4), x = d.vec(), y = d.vec(), alt = d.u(2); P.n_vec++;
+      MOp& o = push(M_VMOV, form == 0 ? 0 : form == 1 ? 2 : 1, 128); o.alt = alt; o.o[0] = Opnd::V(x);
+      if (form == 0) o.o[1] = Opnd::V(y);
+      else { size_t me = out->ops.size() - 1; MemRef m = mem(d, 16, form >= 2, false, alt ? 16 : 1); out->ops[me].o[1] = Opnd::M(m); }
+      break;
+    }
+    case H_VALU: {
+      if (P.nv == 0) { int a = d.gp(); alu(A_XOR, effw(32, a), Opnd::R(a), Opnd::I(3)); break; }
+      int sub = d.u(V_COUNT_ + 1), x = d.vec(), y = d.vec(), z = d.vec(), form = d.u(4), km = d.u(3), alt = d.u(2), im = d.u(256); P.n_vec++;
+      if (sub == V_COUNT_) {   // vpternlogd (AVX-512 only) else pshufd
+        if (P.vmode == 2) {
+          int pi = d.u(4); MOp& o = push(M_VTERN, 0, 128); o.o[0] = Opnd::V(x); o.o[1] = Opnd::V(y); o.o[2] = Opnd::V(z);
+          o.imm = pi == 0 ? 0x00 : pi == 1 ? 0xFF : im;
+          if (km == 1 && P.nk > 0) { o.kmask = d.msk(); P.n_mask++; }
+          break;
+        }
+        sub = V_PSHUFD;
+      }
+      MOp& o = push(M_VALU, sub, 128); o.alt = alt; o.imm = im;
+      o.o[0] = Opnd::V(x); o.o[1] = Opnd::V(P.vmode == 0 ? x : y); o.o[2] = Opnd::V(z);
+      if (sub == V_PSHUFD) o.o[1] = o.o[2];
+      if (form == 3) { size_t me = out->ops.size() - 1; MemRef m = mem(d, 16, true, false, 16); out->ops[me].o[2] = Opnd::M(m); if (sub == V_PSHUFD) out->ops[me].o[1] = out->ops[me].o[2]; }
+      if (P.vmode == 2 && km == 1 && P.nk > 0 && sub <= V_PANDN) { out->ops.back().kmask = d.msk(); P.n_mask++; }
+      break;
+    }
+    case H_KOP: {
+      if (P.nk == 0 || P.vmode != 2) { int a = d.gp(); alu(A_ADD, effw(32, a), Opnd::R(a), Opnd::I(7)); break; }
+      int sub = d.u(12), k1 = d.msk(), k2 = d.msk(), k3 = d.msk(), g = d.gp(), x = P.nv ? d.vec() : 0, y = P.nv ? d.vec() : 0, km = d.u(3); P.n_mask++;
+      if (sub >= 10) {
+        if (P.nv == 0) sub = KO_XOR;
+        else { MOp& o = push(M_KCMP, sub == 10 ? 0 : 1, 128); o.o[0] = Opnd::K(k1); o.o[1] = Opnd::V(x); o.o[2] = Opnd::V(y); if (km == 1) o.kmask = k2; break; }
+      }
+      MOp& o = push(M_KOP, sub, 16); o.o[0] = Opnd::K(k1);
+      if (sub == KO_KG || sub == KO_GK) o.o[1] = Opnd::R(g);
+      else if (sub == KO_NOT || sub == KO_KK) o.o[1] = Opnd::K(k2);
+      else if (sub == KO_KM || sub == KO_MK) { size_t me = out->ops.size() - 1; MemRef m = mem(d, 2, false, false); out->ops[me].o[1] = Opnd::M(m); }
+      else { o.o[1] = Opnd::K(k2); o.o[2] = Opnd::K(k3); }
+      break;
+    }
+    case H_CALL: {
+      int id = d.u(kNumCallees), dd = d.gp();
+      const char* sig = kCallees[id];
+      bool needs_vec = strchr(sig, 'x') != nullptr;
+      if (needs_vec && P.nv == 0) { id = id % 8; sig = kCallees[id]; }
+      MOp& o = push(M_CALL, id, 64); P.n_calls++;
+      o.o[0] = sig[0] == 'x' ? Opnd::V(d.vec()) : Opnd::R(dd);
+      for (int i = 0; sig[1 + i]; i++) {
+        int r = d.gp(); int64_t im = d.imm(); int isimm = d.u(5) == 0;
+        Opnd a;
+        if (sig[1 + i] == 'x') a = Opnd::V(umod(r + im, P.nv));
+        else if (isimm) a = Opnd::I(sig[1 + i] == 'd' ? int64_t(uint32_t(im)) : im);
+        else if (sig[1 + i] == 'q' && ty(r) != 64) { if (P.idx64.empty()) a = Opnd::I(im); else a = Opnd::R(P.idx64[size_t(r) % P.idx64.size()]); }
+        else a = Opnd::R(r);
+        out->ops.back().args[i] = a; out->ops.back().nargs = i + 1;
+      }
+      break;
+    }
+    default: alu(A_ADD, 32, Opnd::R(0), Opnd::R(0)); break;
+  }
+  for (MOp& m : node.ops) fix(m);
+}
+
+// Exclusion of known-defect trigger shapes (see Excl).
+void Lower::fix(MOp& m) {
+  auto is_reg = [](const Opnd& o) { return o.t == T_REG; };
+  bool same01 = is_reg(m.o[0]) && is_reg(m.o[1]) && m.o[0].r == m.o[1].r;
+  if (ex.on[EX_CMPXCHG] && m.k == M_CMPXCHG) { m.k = M_ALU; m.sub = A_ADD; m.o[2] = Opnd(); P.n_excluded++; }
+  if (ex.on[EX_KMOVW] && m.k == M_KOP && m.sub == KO_GK) { m.sub = KO_KK; m.o[1] = m.o[0]; P.n_excluded++; }
+  if (ex.on[EX_BTMEM] && m.k == M_BT && is_reg(m.o[1])) { m.o[1] = Opnd::I(7); P.n_excluded++; }
+  if (ex.on[EX_AND0] && m.k == M_ALU && m.sub == A_AND && m.o[1].t == T_IMM && m.o[1].imm == 0 && is_reg(m.o[0])) { m.sub = A_MOV; P.n_excluded++; }
+  if (ex.on[EX_WOPART] && m.k == M_ALU && (m.sub == A_XOR || m.sub == A_SUB) && same01 && m.w < 32) { m.sub = A_MOV; m.o[1] = Opnd::I(0); P.n_excluded++; }
+  if (ex.on[EX_RO32] && m.k == M_ALU && (m.sub == A_AND || m.sub == A_OR) && same01 && m.w == 32 && ty(m.o[0].r) == 64) { m.w = 64; P.n_excluded++; }
+  if (ex.on[EX_RMNARROW] && m.w == 32 && is_reg(m.o[0]) && ty(m.o[0].r) == 64) {
+    bool rw = (m.k == M_ALU && (m.sub <= A_XOR || m.sub == A_XCHG || m.sub == A_XADD)) || m.k == M_UN || m.k == M_SHIFT || (m.k == M_BT && m.sub != B_BT) || m.k == M_CMPXCHG;
+    if (rw) {
+      bool all64 = true;
+      for (int i = 1; i < 3; i++) { if (is_reg(m.o[i]) && ty(m.o[i].r) != 64 && !(m.k == M_SHIFT && i == 1)) all64 = false; if (m.o[i].t == T_MEM) all64 = false; }
+      if (all64) { m.w = 64; for (int i = 1; i < 3; i++) if (m.o[i].t == T_IMM && m.k == M_ALU) m.o[i].imm = int64_t(int32_t(m.o[i].imm)); }
+      else { Opnd s = (m.k == M_ALU && m.o[1].t != T_NONE) ? m.o[1] : Opnd::I(1); m.k = M_ALU; m.sub = A_MOV; m.o[1] = s; m.o[2] = Opnd(); }
+      P.n_excluded++;
+    }
+  }
+  // xchg with a memory/narrow register as second operand is symmetric
+  if (ex.on[EX_RMNARROW] && m.k == M_ALU && m.sub == A_XCHG && m.w == 32 && is_reg(m.o[1]) && ty(m.o[1].r) == 64) { m.sub = A_MOV; P.n_excluded++; }
+}
+
+inline int clampi(int64_t v, int lo, int hi) { return int(v < lo ? lo : v > hi ? hi : v); }
+
+void count_depth(Prog& P, const std::vector<Node>& l, int depth) {
+  P.max_depth = std::max(P.max_depth, depth);
+  for (const Node& n : l) for (auto& p : n.parts) count_depth(P, p, depth + 1);
+}
+
+void decode_case(const vh::Case& c, const Excl& ex, Prog& P) {
+  auto cf = [&](size_t i) -> int64_t { return i < c.cfg.size() ? c.cfg[i] : 0; };
+  P.ng = clampi(cf(0) < 0 ? -cf(0) : cf(0), 1, kMaxG);
+  P.tysel = umod(cf(1), 4);
+  P.nv = umod(cf(2), kMaxV + 1);
+  P.nk = umod(cf(3), kMaxK + 1);
+  P.vmode = umod(cf(4), 3);
+  if (P.vmode != 2) P.nk = 0;
+  P.nargs = std::min(umod(cf(5), kMaxArgs + 1), P.ng);
+  P.foldfrac = 8 - umod(cf(6), 9);            // 0 -> everything folded
+  P.foldsel = umod(cf(7), 8);
+  P.pressure = umod(cf(8), kMaxP + 1);
+  P.nslots = umod(cf(9), kMaxSlots + 1);
+  P.inseed = uint64_t(cf(10));
+  P.initsel = umod(cf(11), 4);
+  P.gty.resize(size_t(P.ng));
+  for (int i = 0; i < P.ng; i++) {
+    int t = P.tysel == 0 ? 64 : P.tysel == 1 ? 32 : P.tysel == 2 ? ((i & 1) ? 32 : 64) : ((mix64(uint64_t(i) * 77 + 5) & 1) ? 32 : 64);
+    P.gty[size_t(i)] = uint8_t(t);
+    if (t == 64) P.idx64.push_back(i);
+  }
+  Lower L(P, ex);
+  std::vector<Node> st;
+  st.emplace_back(); st.back().parts.emplace_back();
+  auto close = [&]() {
+    Node n = std::move(st.back()); st.pop_back();
+    if (n.kind == N_IF || n.kind == N_IRR) while (n.parts.size() < 2) n.parts.emplace_back();
+    st.back().parts.back().push_back(std::move(n));
+  };
+  size_t total = 0;
+  for (const vh::Op& op : c.ops) {
+    if (++total > 400) break;
+    int hk = umod(fld(op, 0), H_COUNT_);
+    if (hk == H_IF || hk == H_IRR || hk == H_LOOP || hk == H_SWITCH) {
+      if (st.size() > 4) continue;
+      Node n; n.hl = hk; Dec d(P, op);
+      if (hk == H_LOOP) { n.kind = N_LOOP; n.n = 1 + d.u(3); n.flag = d.u(2); P.n_loops++; }
+      else if (hk == H_SWITCH) { n.kind = N_SWITCH; n.sel = d.gp(); n.n = 1 + d.u(4); n.flag = d.u(3) == 0; n.ntab = 4; P.n_switch++; if (ex.on[EX_JTCLOBBER]) { n.pad = 1; P.n_excluded++; } }
+      else { n.kind = hk == H_IF ? N_IF : N_IRR; n.cc = d.u(16); if (hk == H_IRR) { n.n = 1 + d.u(3); P.n_irr++; } else P.n_if++; L.out = &n; L.cond(d); }
+      n.parts.emplace_back();
+      st.push_back(std::move(n));
+    } else if (hk == H_NEXT) {
+      if (st.size() <= 1) continue;
+      Node& t = st.back();
+      if (((t.kind == N_IF || t.kind == N_IRR) && t.parts.size() < 2) || (t.kind == N_SWITCH && int(t.parts.size()) < t.n)) t.parts.emplace_back();
+    } else if (hk == H_END) {
+      if (st.size() > 1) close();
+    } else if (hk == H_RETIF) {
+      Node n; n.kind = N_RETIF; n.hl = hk; Dec d(P, op); n.cc = d.u(16); n.sel = d.gp(); L.out = &n; L.cond(d); P.n_retif++;
+      st.back().parts.back().push_back(std::move(n));
+    } else {
+      Node n; L.lower(op, hk, n);
+      st.back().parts.back().push_back(std::move(n));
+    }
+  }
+  while (st.size() > 1) close();
+  P.body = std::move(st.back().parts.back());
+  count_depth(P, P.body, 0);
+}
+
+// ------------------------------------------------------------------------------------------------
+// Rendering of the IR (for failure reports)
+// ------------------------------------------------------------------------------------------------
+const char* const kCC[16] = {"o", "no", "b", "ae", "e", "ne", "be", "a", "s", "ns", "p", "np", "l", "ge", "le", "g"};
+std::string show_opnd(const Prog& P, const Opnd& o, int w) {
+  char b[96];
+  switch (o.t) {
+    case T_REG: snprintf(b, sizeof b, "%s%d:%d.%d", size_t(o.r) >= size_t(P.ng) ? "t" : "v", o.r, size_t(o.r) < P.gty.size() ? P.gty[size_t(o.r)] : 0, w); return b;
+    case T_VEC: snprintf(b, sizeof b, "x%d", o.r); return b;
+    case T_MSK: snprintf(b, sizeof b, "k%d", o.r); return b;
+    case T_IMM: snprintf(b, sizeof b, "%lld", (long long)o.imm); return b;
+    case T_MEM:
+      if (o.m.space == MS_BUF) { if (o.m.idx >= 0) snprintf(b, sizeof b, "[scr+%d+v%d<<%d].%d", o.m.off, o.m.idx, o.m.shift, w); else snprintf(b, sizeof b, "[scr+%d].%d", o.m.off, w); }
+      else if (o.m.space == MS_SLOT) snprintf(b, sizeof b, "[slot%d+%d].%d", o.m.slot, o.m.off, w);
+      else snprintf(b, sizeof b, "[const%c%d].%d", o.m.space == MS_CONSTL ? 'L' : 'G', o.m.off, w);
+      return b;
+    default: return "-";
+  }
+}
+std::string show_mop(const Prog& P, const MOp& m) {
+  static const char* const kn[] = {"alu", "un", "imul3", "lea", "movx", "shift", "muldiv", "cdq", "cmpxchg", "set", "cmov", "bt", "cnt", "vgx", "vmov", "valu", "vtern", "kop", "kcmp", "call"};
+  static const char* const an[] = {"add", "sub", "and", "or", "xor", "mov", "cmp", "test", "imul", "xchg", "xadd"};
+  static const char* const un[] = {"not", "neg", "inc", "dec"};
+  static const char* const sn[] = {"shl", "shr", "sar", "rol", "ror"};
+  static const char* const dn[] = {"mul", "imul", "div", "idiv"};
+  static const char* const bn[] = {"bt", "bts", "btr", "btc"};
+  static const char* const cn[] = {"popcnt", "lzcnt", "tzcnt"};
+  static const char* const gn[] = {"movd_xg", "movd_gx", "movq_xg", "movq_gx", "pinsrd", "pextrd"};
+  static const char* const vn[] = {"paddd", "psubd", "pxor", "pand", "por", "pandn", "pcmpeqd", "pcmpgtd", "pshufd"};
+  static const char* const kon[] = {"kmov_kg", "kmov_gk", "kand", "kor", "kxor", "kxnor", "knot", "kmov_kk", "kmov_km", "kmov_mk"};
+  std::string s;
+  const char* name = kn[m.k];
+  switch (m.k) {
+    case M_ALU: name = an[m.sub]; break; case M_UN: name = un[m.sub]; break; case M_SHIFT: name = sn[m.sub]; break;
+    case M_MULDIV: name = dn[m.sub]; break; case M_BT: name = bn[m.sub]; break; case M_CNT: name = cn[m.sub]; break;
+    case M_VGX: name = gn[m.sub]; break; case M_VALU: name = vn[m.sub]; break; case M_KOP: name = kon[m.sub]; break;
+    case M_MOVX: name = m.sub == X_SX ? "movsx" : "movzx"; break;
+    case M_VMOV: name = m.sub == 0 ? "vmov" : m.sub == 1 ? "vload" : "vstore"; break;
+    case M_KCMP: name = m.sub ? "vpcmpgtd_k" : "vpcmpeqd_k"; break;
+    default: break;
+  }
+  s += name;
+  if (m.k == M_SETCC || m.k == M_CMOV) s += kCC[m.cc & 15];
+  if (m.k == M_CALL) { s += std::to_string(m.sub); s += "("; for (int i = 0; i < m.nargs; i++) { if (i) s += ", "; s += show_opnd(P, m.args[i], 64); } s += ") -> " + show_opnd(P, m.o[0], 64); return s; }
+  for (int i = 0; i < 4; i++) if (m.o[i].t != T_NONE) { s += i ? ", " : " "; s += show_opnd(P, m.o[i], (m.k == M_MOVX && i == 1) ? m.w2 : (m.k == M_SETCC ? 8 : m.w)); }
+  if (m.k == M_IMUL3 || m.k == M_VGX || m.k == M_VTERN || (m.k == M_VALU && m.sub == V_PSHUFD) || (m.k == M_LEA)) s += " #" + std::to_string((long long)m.imm);
+  if (m.k == M_LEA) s += " aw" + std::to_string(m.w2);
+  if (m.kmask >= 0) s += " {k" + std::to_string(m.kmask) + "}";
+  return s;
+}
+void show_nodes(const Prog& P, const std::vector<Node>& l, int ind, std::string& s) {
+  auto pad = [&](int n) { s.append(size_t(n) * 2, ' '); };
+  for (const Node& n : l) {
+    if (n.kind == N_OP) { for (const MOp& m : n.ops) { pad(ind); s += show_mop(P, m); s += "\n"; } continue; }
+    for (const MOp& m : n.ops) { pad(ind); s += show_mop(P, m); s += "\n"; }
+    pad(ind);
+    char b[96];
+    switch (n.kind) {
+      case N_IF: snprintf(b, sizeof b, "if %s {\n", kCC[n.cc]); break;
+      case N_LOOP: snprintf(b, sizeof b, "loop %d {\n", n.n); break;
+      case N_IRR: snprintf(b, sizeof b, "cycle %d, if %s enter at B {  A:\n", n.n, kCC[n.cc]); break;
+      case N_SWITCH: snprintf(b, sizeof b, "switch v%d & 3 (table of 4 -> %d cases%s) {\n", n.sel, int(n.parts.size()), n.flag ? ", fallthrough" : ""); break;
+      case N_RETIF: snprintf(b, sizeof b, "if %s return marker ^ v%d\n", kCC[n.cc], n.sel); break;
+      default: b[0] = 0;
+    }
+    s += b;
+    for (size_t p = 0; p < n.parts.size(); p++) {
+      if (p) { pad(ind); s += n.kind == N_IF ? "} else {\n" : n.kind == N_IRR ? "  B:\n" : "} case {\n"; }
+      show_nodes(P, n.parts[p], ind + 1, s);
+    }
+    if (n.kind != N_RETIF) { pad(ind); s += "}\n"; }
+  }
+}
+std::string show_prog(const Prog& P) {
+  char b[256];
+  snprintf(b, sizeof b, "prog ng=%d (tysel %d) nv=%d nk=%d vmode=%d nargs=%d foldfrac=%d foldsel=%d pressure=%d nslots=%d temps=%d\n",
+           P.ng, P.tysel, P.nv, P.nk, P.vmode, P.nargs, P.foldfrac, P.foldsel, P.pressure, P.nslots, P.ntemps);
+  std::string s = b;
+  show_nodes(P, P.body, 1, s);
+  return s;
+}
+
+// ------------------------------------------------------------------------------------------------
+// Reference interpreter (unbounded virtual values, exact x86 integer semantics)
+// ------------------------------------------------------------------------------------------------
+struct Flags { bool cf = false, zf = false, sf = false, of = false, pf = false; };
+inline bool parity8(uint64_t v) { return (__builtin_popcountll(v & 0xff) & 1) == 0; }
+inline Flags flags_sub(uint64_t a, uint64_t b, int w) {
+  uint64_t m = wmask(w); a &= m; b &= m; uint64_t r = (a - b) & m; Flags f;
+  f.cf = a < b; f.zf = r == 0; f.sf = (r >> (w - 1)) & 1; f.of = (((a ^ b) & (a ^ r)) >> (w - 1)) & 1; f.pf = parity8(r); return f;
+}
+inline Flags flags_logic(uint64_t r, int w) { Flags f; r &= wmask(w); f.zf = r == 0; f.sf = (r >> (w - 1)) & 1; f.pf = parity8(r); return f; }
+inline bool eval_cc(int cc, const Flags& f) {
+  bool r;
+  switch (cc >> 1) {
+    case 0: r = f.of; break; case 1: r = f.cf; break; case 2: r = f.zf; break; case 3: r = f.cf || f.zf; break;
+    case 4: r = f.sf; break; case 5: r = f.pf; break; case 6: r = f.sf != f.of; break; default: r = f.zf || (f.sf != f.of); break;
+  }
+  return (cc & 1) ? !r : r;
+}
+inline uint64_t const_word(int space, int id, int half) { return mix64(uint64_t(space) * 1000 + uint64_t(id) * 2 + uint64_t(half) + 17); }
+inline int64_t slot_init(int s, int j) { return int64_t(int32_t(mix64(uint64_t(s) * 8 + uint64_t(j) + 99))); }
+inline uint64_t init_const(int i) { return mix64(uint64_t(i) + 4242); }
+inline int init_kind(const Prog& P, int i) { int h = int(mix64(uint64_t(i) * 31 + uint64_t(P.initsel)) % 8); return P.initsel == 0 ? 2 : h == 0 ? 0 : h == 1 ? 1 : 2; }  // 0 const, 1 imm, 2 load
+constexpr uint64_t kRetMarker = 0x5EED0000C0DEull;
+
+struct VecVal { uint32_t l[4]; };
+
+struct Interp {
+  const Prog& P;
+  std::vector<uint64_t> g; VecVal x[kMaxV + 1]; uint64_t k[kMaxK + 1];
+  uint8_t* buf = nullptr;
+  alignas(16) uint8_t slots[kMaxSlots][32];
+  alignas(16) uint8_t cbuf[16];
+  Flags fl;
+  std::vector<CallRec> log;
+  bool returned = false; uint64_t retval = 0;
+  uint64_t steps = 0;
+  explicit Interp(const Prog& p) : P(p) {}
+
+  uint8_t* addr(const MemRef& m) {
+    switch (m.space) {
+      case MS_BUF: return buf + OFF_SCR + m.off + (m.idx >= 0 ? (g[size_t(m.idx)] << m.shift) : 0);
+      case MS_SLOT: return slots[m.slot] + m.off;
+      default: { uint64_t t[2] = {const_word(m.space, m.off, 0), const_word(m.space, m.off, 1)}; memcpy(cbuf, t, 16); return cbuf; }
+    }
+  }
+  uint64_t rd(const Opnd& o, int w) {
+    switch (o.t) {
+      case T_REG: return g[size_t(o.r)] & wmask(w);
+      case T_IMM: return uint64_t(o.imm) & wmask(w);
+      case T_MEM: { uint64_t v = 0; memcpy(&v, addr(o.m), size_t(w / 8)); return v; }
+      default: return 0;
+    }
+  }
+  void wr(const Opnd& o, int w, uint64_t v) {
+    v &= wmask(w);
+    if (o.t == T_REG) { uint64_t& r = g[size_t(o.r)]; r = w >= 32 ? v : ((r & ~wmask(w)) | v); }
+    else if (o.t == T_MEM) memcpy(addr(o.m), &v, size_t(w / 8));
+  }
+  VecVal rdv(const Opnd& o) { VecVal v; if (o.t == T_VEC) v = x[o.r]; else memcpy(&v, addr(o.m), 16); return v; }
+
+  void exec(const MOp& m) {
+    int w = m.w; steps++;
+    switch (m.k) {
+      case M_ALU: {
+        uint64_t a = rd(m.o[0], w), b = rd(m.o[1], w);
+        switch (m.sub) {
+          case A_ADD: wr(m.o[0], w, a + b); break; case A_SUB: wr(m.o[0], w, a - b); break; case A_AND: wr(m.o[0], w, a & b); break;
+          case A_OR: wr(m.o[0], w, a | b); break; case A_XOR: wr(m.o[0], w, a ^ b); break; case A_MOV: wr(m.o[0], w, b); break;
+          case A_CMP: fl = flags_sub(a, b, w); break; case A_TEST: fl = flags_logic(a & b, w); break;
+          case A_IMUL: wr(m.o[0], w, a * b); break;
+          case A_XCHG: wr(m.o[0], w, b); wr(m.o[1], w, a); break;
+          case A_XADD: wr(m.o[1], w, a); wr(m.o[0], w, a + b); break;
+        }
+        break;
+      }
+      case M_UN: { uint64_t a = rd(m.o[0], w); wr(m.o[0], w, m.sub == U_NOT ? ~a : m.sub == U_NEG ? 0 - a : m.sub == U_INC ? a + 1 : a - 1); break; }
+      case M_IMUL3: wr(m.o[0], w, rd(m.o[1], w) * uint64_t(m.imm)); break;
+      case M_LEA: {
+        int aw = m.w2; uint64_t v = uint64_t(m.o[3].imm);
+        if (m.o[1].t == T_REG) v += rd(m.o[1], aw);
+        if (m.o[2].t == T_REG) v += rd(m.o[2], aw) << m.imm;
+        v &= wmask(aw); wr(m.o[0], w, v); break;
+      }
+      case M_MOVX: { uint64_t v = rd(m.o[1], m.w2); if (m.sub == X_SX) v = uint64_t(sx(v, m.w2)); wr(m.o[0], w, v); break; }
+      case M_SHIFT: {
+        uint64_t a = rd(m.o[0], w); unsigned c = unsigned(rd(m.o[1], 8)) & (w == 64 ? 63u : 31u); uint64_t r = a;
+        if (c) switch (m.sub) {
+          case S_SHL: r = c >= unsigned(w) ? 0 : a << c; break;
+          case S_SHR: r = c >= unsigned(w) ? 0 : a >> c; break;
+          case S_SAR: { int64_t s = sx(a, w); r = uint64_t(c >= unsigned(w) ? (s < 0 ? -1 : 0) : (s >> c)); break; }
+          case S_ROL: { unsigned e = c % unsigned(w); r = e ? ((a << e) | (a >> (unsigned(w) - e))) : a; break; }
+          case S_ROR: { unsigned e = c % unsigned(w); r = e ? ((a >> e) | (a << (unsigned(w) - e))) : a; break; }
+        }
+        wr(m.o[0], w, r);   // a masked count of 0 still writes the destination (a 32-bit destination is zero-extended)
+        break;
+      }
+      case M_CDQ: { int64_t s = sx(rd(m.o[1], w), w); wr(m.o[0], w, s < 0 ? ~0ull : 0); break; }
+      case M_MULDIV: {
+        uint64_t lo = rd(m.o[1], w), s = rd(m.o[2], w), hi = rd(m.o[0], w);
+        if (m.sub == D_MUL) { unsigned __int128 p = (unsigned __int128)lo * s; wr(m.o[1], w, uint64_t(p)); wr(m.o[0], w, uint64_t(p >> w)); }
+        else if (m.sub == D_IMUL) { __int128 p = (__int128)sx(lo, w) * sx(s, w); wr(m.o[1], w, uint64_t(p)); wr(m.o[0], w, uint64_t(p >> w)); }
+        else if (m.sub == D_DIV) { unsigned __int128 n = ((unsigned __int128)hi << w) | lo; if (!s) s = 1; wr(m.o[1], w, uint64_t(n / s)); wr(m.o[0], w, uint64_t(n % s)); }
+        else { __int128 n = (__int128)(((unsigned __int128)hi << w) | lo); if (w < 64) n = sx(uint64_t(n), 2 * w);
+               int64_t dv = sx(s, w); if (!dv) dv = 1; wr(m.o[1], w, uint64_t(n / dv)); wr(m.o[0], w, uint64_t(n % dv)); }
+        break;
+      }
+      case M_CMPXCHG: { uint64_t dv = rd(m.o[0], w), acc = rd(m.o[2], w), s = rd(m.o[1], w); if (acc == dv) wr(m.o[0], w, s); else wr(m.o[2], w, dv); break; }
+      case M_SETCC: wr(m.o[0], 8, eval_cc(m.cc, fl) ? 1 : 0); break;
+      case M_CMOV: { uint64_t v = eval_cc(m.cc, fl) ? rd(m.o[1], w) : rd(m.o[0], w); wr(m.o[0], w, v); break; }
+      case M_BT: {
+        uint64_t a = rd(m.o[0], w); unsigned bit = unsigned(rd(m.o[1], w)) % unsigned(w); fl = Flags(); fl.cf = (a >> bit) & 1;
+        if (m.sub == B_BTS) wr(m.o[0], w, a | (1ull << bit)); else if (m.sub == B_BTR) wr(m.o[0], w, a & ~(1ull << bit)); else if (m.sub == B_BTC) wr(m.o[0], w, a ^ (1ull << bit));
+        break;
+      }
+      case M_CNT: {
+        uint64_t s = rd(m.o[1], w), r;
+        if (m.sub == C_POPCNT) r = uint64_t(__builtin_popcountll(s));
+        else if (m.sub == C_LZCNT) r = s ? uint64_t(__builtin_clzll(s) - (64 - w)) : uint64_t(w);
+        else r = s ? uint64_t(__builtin_ctzll(s)) : uint64_t(w);
+        wr(m.o[0], w, r); break;
+      }
+      case M_VGX: {
+        VecVal& v = x[m.o[0].r]; uint64_t gv = g[size_t(m.o[1].r)];
+        switch (m.sub) {
+          case G_MOVD_XG: v = VecVal{{uint32_t(gv), 0, 0, 0}}; break;
+          case G_MOVD_GX: wr(m.o[1], 32, v.l[0]); break;
+          case G_MOVQ_XG: v = VecVal{{uint32_t(gv), uint32_t(gv >> 32), 0, 0}}; break;
+          case G_MOVQ_GX: wr(m.o[1], 64, uint64_t(v.l[0]) | (uint64_t(v.l[1]) << 32)); break;
+          case G_PINSRD: v.l[m.imm & 3] = uint32_t(gv); break;
+          case G_PEXTRD: wr(m.o[1], 32, v.l[m.imm & 3]); break;
+        }
+        break;
+      }
+      case M_VMOV: { if (m.sub == 2) { VecVal v = x[m.o[0].r]; memcpy(addr(m.o[1].m), &v, 16); } else x[m.o[0].r] = rdv(m.o[1]); break; }
+      case M_VALU: case M_VTERN: {
+        VecVal a = rdv(m.o[1]), b = rdv(m.o[2]), old = x[m.o[0].r], r = old;
+        for (int i = 0; i < 4; i++) {
+          uint32_t p = a.l[i], q = b.l[i];
+          if (m.k == M_VTERN) { uint32_t o = 0, A = old.l[i]; for (int bit = 0; bit < 32; bit++) { unsigned idx = (((A >> bit) & 1) << 2) | (((p >> bit) & 1) << 1) | ((q >> bit) & 1); o |= uint32_t((m.imm >> idx) & 1) << bit; } r.l[i] = o; continue; }
+          switch (m.sub) {
+            case V_PADDD: r.l[i] = p + q; break; case V_PSUBD: r.l[i] = p - q; break; case V_PXOR: r.l[i] = p ^ q; break;
+            case V_PAND: r.l[i] = p & q; break; case V_POR: r.l[i] = p | q; break; case V_PANDN: r.l[i] = ~p & q; break;
+            case V_PCMPEQD: r.l[i] = p == q ? ~0u : 0; break; case V_PCMPGTD: r.l[i] = int32_t(p) > int32_t(q) ? ~0u : 0; break;
+            case V_PSHUFD: r.l[i] = b.l[(m.imm >> (2 * i)) & 3]; break;
+          }
+        }
+        if (m.kmask >= 0) for (int i = 0; i < 4; i++) if (!((k[m.kmask] >> i) & 1)) r.l[i] = old.l[i];
+        x[m.o[0].r] = r; break;
+      }
+      case M_KOP: {
+        uint64_t& d = k[m.o[0].r];
+        switch (m.sub) {
+          case KO_KG: d = g[size_t(m.o[1].r)] & 0xFFFF; break;
+          case KO_GK: wr(m.o[1], 32, d & 0xFFFF); break;
+          case KO_AND: d = (k[m.o[1].r] & k[m.o[2].r]) & 0xFFFF; break; case KO_OR: d = (k[m.o[1].r] | k[m.o[2].r]) & 0xFFFF; break;
+          case KO_XOR: d = (k[m.o[1].r] ^ k[m.o[2].r]) & 0xFFFF; break; case KO_XNOR: d = ~(k[m.o[1].r] ^ k[m.o[2].r]) & 0xFFFF; break;
+          case KO_NOT: d = ~k[m.o[1].r] & 0xFFFF; break; case KO_KK: d = k[m.o[1].r] & 0xFFFF; break;
+          case KO_KM: d = rd(m.o[1], 16); break; case KO_MK: wr(m.o[1], 16, d); break;
+        }
+        break;
+      }
+      case M_KCMP: {
+        VecVal a = rdv(m.o[1]), b = rdv(m.o[2]); uint64_t r = 0;
+        for (int i = 0; i < 4; i++) if (m.sub ? int32_t(a.l[i]) > int32_t(b.l[i]) : a.l[i] == b.l[i]) r |= 1ull << i;
+        if (m.kmask >= 0) r &= k[m.kmask];
+        k[m.o[0].r] = r; break;
+      }
+      case M_CALL: {
+        CallRec r{}; r.id = m.sub; const char* sig = kCallees[m.sub];
+        for (int i = 0; i < m.nargs; i++) {
+          const Opnd& a = m.args[i];
+          if (sig[1 + i] == 'x') { memcpy(r.a[i], &x[a.r], 16); }
+          else { uint64_t v = a.t == T_IMM ? uint64_t(a.imm) : g[size_t(a.r)]; r.a[i][0] = sig[1 + i] == 'd' ? uint32_t(v) : v; }
+        }
+        callee_model(r); if (log.size() < 4096) log.push_back(r);
+        if (sig[0] == 'x') memcpy(&x[m.o[0].r], r.ret, 16);
+        else { int t = size_t(m.o[0].r) < P.gty.size() ? P.gty[size_t(m.o[0].r)] : 64; wr(m.o[0], t, r.ret[0]); }
+        break;
+      }
+    }
+  }
+
+  void run_list(const std::vector<Node>& l) {
+    for (const Node& n : l) {
+      if (returned) return;
+      switch (n.kind) {
+        case N_OP: for (const MOp& m : n.ops) exec(m); break;
+        case N_IF: for (const MOp& m : n.ops) exec(m); run_list(eval_cc(n.cc, fl) ? n.parts[0] : n.parts[1]); break;
+        case N_LOOP: for (int i = 0; i < n.n && !returned; i++) run_list(n.parts[0]); break;
+        case N_IRR: {
+          for (const MOp& m : n.ops) exec(m);
+          bool atB = eval_cc(n.cc, fl);
+          for (int c = n.n; c > 0 && !returned; c--) { if (!atB) run_list(n.parts[0]); atB = false; if (returned) break; run_list(n.parts[1]); }
+          break;
+        }
+        case N_SWITCH: {
+          size_t nc = n.parts.size(); size_t ci = size_t(g[size_t(n.sel)] & 3) % nc;
+          if (n.flag) { for (size_t j = ci; j < nc && !returned; j++) run_list(n.parts[j]); } else run_list(n.parts[ci]);
+          break;
+        }
+        case N_RETIF:
+          for (const MOp& m : n.ops) exec(m);
+          if (eval_cc(n.cc, fl)) { returned = true; retval = kRetMarker ^ g[size_t(n.sel)]; }
+          break;
+      }
+    }
+  }
+
+  // args: the scalar arguments as passed (upper halves of 32-bit arguments are garbage by design)
+  uint64_t run(uint8_t* b, const uint64_t* args) {
+    buf = b; g.assign(P.gty.size(), 0); log.clear(); returned = false; steps = 0;
+    for (int i = 0; i < P.ng; i++) {
+      uint64_t v;
+      if (i < P.nargs) v = args[i];
+      else { int ik = init_kind(P, i); if (ik == 0) v = init_const(i); else if (ik == 1) v = uint64_t(int64_t(int32_t(init_const(i)))); else memcpy(&v, b + OFF_GIN + 8 * i, 8); }
+      g[size_t(i)] = v & wmask(P.gty[size_t(i)]);
+    }
+    for (int j = 0; j < P.nv; j++) memcpy(&x[j], b + OFF_VIN + 16 * j, 16);
+    for (int j = 0; j < P.nk; j++) { uint16_t t; memcpy(&t, b + OFF_KIN + 8 * j, 2); k[j] = t; }
+    for (int s = 0; s < P.nslots; s++) for (int j = 0; j < 4; j++) { int64_t v = slot_init(s, j); memcpy(slots[s] + 8 * j, &v, 8); }
+    uint64_t acc2 = 0;
+    for (int i = 0; i < P.pressure; i++) { uint64_t v; memcpy(&v, b + OFF_PIN + 8 * i, 8); acc2 = ((acc2 << 3) | (acc2 >> 61)) ^ v; }
+    int npv = P.nv ? std::min(P.pressure / 4, 40) : 0;
+    for (int j = 0; j < npv; j++) { uint64_t v; memcpy(&v, b + OFF_VIN + 16 * (j % 48), 8); acc2 ^= v; }
+    run_list(P.body);
+    if (returned) return retval;
+    uint64_t acc = 0;
+    for (int i = 0; i < P.ng; i++) if (P.folded(i)) {
+      uint64_t v = g[size_t(i)]; memcpy(b + OFF_GOUT + 8 * i, &v, size_t(P.gty[size_t(i)] / 8));
+      acc = ((acc << 5) | (acc >> 59)) ^ v;
+    }
+    for (int j = 0; j < P.nv; j++) if (P.folded(j)) memcpy(b + OFF_VOUT + 16 * j, &x[j], 16);
+    for (int j = 0; j < P.nk; j++) if (P.folded(j)) { uint16_t t = uint16_t(k[j]); memcpy(b + OFF_KOUT + 8 * j, &t, 2); }
+    if (P.pressure) memcpy(b + OFF_RES2, &acc2, 8);
+    return acc;
+  }
+};
+
+// ------------------------------------------------------------------------------------------------
+// x86 / x86-64 emission through x86::Compiler
+// ------------------------------------------------------------------------------------------------
+class CaptureErrors : public ErrorHandler {
+public:
+  Error err = Error::kOk; std::string msg;
+  void handle_error(Error e, const char* m, BaseEmitter*) override { if (err == Error::kOk) { err = e; msg = m ? m : ""; } }
+};
+
+struct X86Emit {
+  x86::Compiler& cc; const Prog& P; bool is64; int pressure;
+  Error first_err = Error::kOk;
+  std::vector<x86::Gp> g; std::vector<x86::Vec> x; std::vector<x86::KReg> k;
+  std::vector<x86::Gp> pd; std::vector<x86::Vec> pv;
+  std::vector<x86::Mem> slots;
+  x86::Gp buf, acc, tmp;
+  FuncNode* func = nullptr;
+  struct Table { Label L; std::vector<Label> entries; };
+  std::vector<Table> tables;
+
+  X86Emit(x86::Compiler& c, const Prog& p, bool is64_, int pressure_) : cc(c), P(p), is64(is64_), pressure(pressure_) {}
+  void E(Error e) { if (e != Error::kOk && first_err == Error::kOk) first_err = e; }
+  int cw(int w) const { return (!is64 && w == 64) ? 32 : w; }
+  x86::Gp gv(int r, int w) const {
+    const x86::Gp& b = g[size_t(r)]; w = cw(w);
+    return w == 8 ? b.r8() : w == 16 ? b.r16() : w == 32 ? b.r32() : b.r64();
+  }
+  x86::Mem mem(const MemRef& m, int wbytes) {
+    if (!is64 && wbytes == 8) wbytes = 4;
+    switch (m.space) {
+      case MS_BUF:
+        if (m.idx >= 0) return x86::ptr(buf, is64 ? g[size_t(m.idx)].r64() : g[size_t(m.idx)].r32(), uint32_t(m.shift), OFF_SCR + m.off, uint32_t(wbytes));
+        return x86::ptr(buf, OFF_SCR + m.off, uint32_t(wbytes));
+      case MS_SLOT: { x86::Mem s = slots[size_t(m.slot)]; s.add_offset(m.off); s.set_size(uint32_t(wbytes)); return s; }
+      default: {
+        uint64_t t[2] = {const_word(m.space, m.off, 0), const_word(m.space, m.off, 1)};
+        return cc.new_const(m.space == MS_CONSTL ? ConstPoolScope::kLocal : ConstPoolScope::kGlobal, t, size_t(wbytes));
+      }
+    }
+  }
+  Operand op(const Opnd& o, int w) {
+    switch (o.t) {
+      case T_REG: return gv(o.r, w);
+      case T_VEC: return x[size_t(o.r)];
+      case T_MSK: return k[size_t(o.r)];
+      case T_IMM: return Imm(is64 || w == 64 ? o.imm : int64_t(int32_t(o.imm)));
+      case T_MEM: return mem(o.m, w / 8);
+      default: return Operand();
+    }
+  }
+  void emit_mop(const MOp& m);
+  void emit_list(const std::vector<Node>& l);
+  void prologue();
+  void epilogue();
+  void build() { prologue(); emit_list(P.body); epilogue(); }
+};
+
+void X86Emit::emit_mop(const MOp& m) {
+  using namespace x86;
+  int w = cw(m.w);
+  bool avx = P.vmode >= 1;
+  switch (m.k) {
+    case M_ALU: {
+      static const InstId ids[] = {Inst::kIdAdd, Inst::kIdSub, Inst::kIdAnd, Inst::kIdOr, Inst::kIdXor, Inst::kIdMov, Inst::kIdCmp, Inst::kIdTest, Inst::kIdImul, Inst::kIdXchg, Inst::kIdXadd};
+      Operand a = op(m.o[0], m.w), b = op(m.o[1], m.w);
+      if (m.o[1].t == T_IMM && !(m.sub == A_MOV && w == 64)) b = Imm(w == 64 ? int64_t(int32_t(m.o[1].imm)) : m.o[1].imm);
+      E(cc.emit(ids[m.sub], a, b)); break;
+    }
+    case M_UN: {
+      static const InstId ids[] = {Inst::kIdNot, Inst::kIdNeg, Inst::kIdInc, Inst::kIdDec};
+      Operand a = op(m.o[0], m.w);
+      if (m.alt && m.sub == U_INC) E(cc.emit(Inst::kIdAdd, a, Imm(1))); else if (m.alt && m.sub == U_DEC) E(cc.emit(Inst::kIdSub, a, Imm(1))); else E(cc.emit(ids[m.sub], a));
+      break;
+    }
+    case M_IMUL3: E(cc.emit(Inst::kIdImul, op(m.o[0], m.w), op(m.o[1], m.w), Imm(m.imm))); break;
+    case M_LEA: {
+      int aw = cw(m.w2); Mem a;
+      auto ar = [&](const Opnd& o) { return aw == 64 ? g[size_t(o.r)].r64() : g[size_t(o.r)].r32(); };
+      int32_t disp = int32_t(m.o[3].imm);
+      if (m.o[1].t == T_REG && m.o[2].t == T_REG) a = ptr(ar(m.o[1]), ar(m.o[2]), uint32_t(m.imm), disp);
+      else if (m.o[1].t == T_REG) a = ptr(ar(m.o[1]), disp);
+      else { a = Mem(); a.set_index(ar(m.o[2]), uint32_t(m.imm)); a.set_offset(disp); }
+      E(cc.emit(Inst::kIdLea, gv(m.o[0].r, m.w), a)); break;
+    }
+    case M_MOVX: {
+      Operand s = m.o[1].t == T_MEM ? Operand(mem(m.o[1].m, m.w2 / 8)) : Operand(gv(m.o[1].r, m.w2));
+      InstId id = m.sub == X_SX ? (m.w2 == 32 ? (is64 ? Inst::kIdMovsxd : Inst::kIdMov) : Inst::kIdMovsx) : Inst::kIdMovzx;
+      E(cc.emit(id, gv(m.o[0].r, m.w), s)); break;
+    }
+    case M_SHIFT: {
+      static const InstId ids[] = {Inst::kIdShl, Inst::kIdShr, Inst::kIdSar, Inst::kIdRol, Inst::kIdRor};
+      Operand a = op(m.o[0], m.w);
+      if (m.o[1].t == T_IMM) E(cc.emit(ids[m.sub], a, Imm(m.o[1].imm))); else E(cc.emit(ids[m.sub], a, gv(m.o[1].r, 8)));
+      break;
+    }
+    case M_CDQ: E(cc.emit(w == 64 ? Inst::kIdCqo : w == 32 ? Inst::kIdCdq : Inst::kIdCwd, gv(m.o[0].r, m.w), gv(m.o[1].r, m.w))); break;
+    case M_MULDIV: {
+      static const InstId ids[] = {Inst::kIdMul, Inst::kIdImul, Inst::kIdDiv, Inst::kIdIdiv};
+      E(cc.emit(ids[m.sub], gv(m.o[0].r, m.w), gv(m.o[1].r, m.w), op(m.o[2], m.w))); break;
+    }
+    case M_CMPXCHG: E(cc.emit(Inst::kIdCmpxchg, op(m.o[0], m.w), gv(m.o[1].r, m.w), gv(m.o[2].r, m.w))); break;
+    case M_SETCC: E(cc.emit(Inst::setcc_from_cond(CondCode(m.cc)), gv(m.o[0].r, 8))); break;
+    case M_CMOV: E(cc.emit(Inst::cmovcc_from_cond(CondCode(m.cc)), gv(m.o[0].r, m.w), op(m.o[1], m.w))); break;
+    case M_BT: {
+      static const InstId ids[] = {Inst::kIdBt, Inst::kIdBts, Inst::kIdBtr, Inst::kIdBtc};
+      E(cc.emit(ids[m.sub], gv(m.o[0].r, m.w), m.o[1].t == T_IMM ? Operand(Imm(m.o[1].imm)) : Operand(gv(m.o[1].r, m.w)))); break;
+    }
+    case M_CNT: {
+      static const InstId ids[] = {Inst::kIdPopcnt, Inst::kIdLzcnt, Inst::kIdTzcnt};
+      E(cc.emit(ids[m.sub], gv(m.o[0].r, m.w), op(m.o[1], m.w))); break;
+    }
+    case M_VGX: {
+      const Vec& v = x[size_t(m.o[0].r)]; int sub = m.sub;
+      if (!is64 && sub == G_MOVQ_XG) sub = G_MOVD_XG;
+      if (!is64 && sub == G_MOVQ_GX) sub = G_MOVD_GX;
+      switch (sub) {
+        case G_MOVD_XG: E(cc.emit(avx ? Inst::kIdVmovd : Inst::kIdMovd, v, gv(m.o[1].r, 32))); break;
+        case G_MOVD_GX: E(cc.emit(avx ? Inst::kIdVmovd : Inst::kIdMovd, gv(m.o[1].r, 32), v)); break;
+        case G_MOVQ_XG: E(cc.emit(avx ? Inst::kIdVmovq : Inst::kIdMovq, v, gv(m.o[1].r, 64))); break;
+        case G_MOVQ_GX: E(cc.emit(avx ? Inst::kIdVmovq : Inst::kIdMovq, gv(m.o[1].r, 64), v)); break;
+        case G_PINSRD: if (avx) E(cc.emit(Inst::kIdVpinsrd, v, v, gv(m.o[1].r, 32), Imm(m.imm & 3))); else E(cc.emit(Inst::kIdPinsrd, v, gv(m.o[1].r, 32), Imm(m.imm & 3))); break;
+        case G_PEXTRD: E(cc.emit(avx ? Inst::kIdVpextrd : Inst::kIdPextrd, gv(m.o[1].r, 32), v, Imm(m.imm & 3))); break;
+      }
+      break;
+    }
+    case M_VMOV: {
+      const Vec& v = x[size_t(m.o[0].r)];
+      InstId id = m.alt ? (avx ? Inst::kIdVmovdqa : Inst::kIdMovdqa) : (avx ? Inst::kIdVmovdqu : Inst::kIdMovdqu);
+      if (P.vmode == 2 && (m.o[0].r & 1)) id = m.alt ? Inst::kIdVmovdqa32 : Inst::kIdVmovdqu32;
+      if (m.sub == 0) E(cc.emit(id, v, x[size_t(m.o[1].r)]));
+      else if (m.sub == 1) E(cc.emit(id, v, mem(m.o[1].m, 16)));
+      else E(cc.emit(id, mem(m.o[1].m, 16), v));
+      break;
+    }
+    case M_VALU: {
+      static const InstId sse[] = {Inst::kIdPaddd, Inst::kIdPsubd, Inst::kIdPxor, Inst::kIdPand, Inst::kIdPor, Inst::kIdPandn, Inst::kIdPcmpeqd, Inst::kIdPcmpgtd, Inst::kIdPshufd};
+      static const InstId vex[] = {Inst::kIdVpaddd, Inst::kIdVpsubd, Inst::kIdVpxor, Inst::kIdVpand, Inst::kIdVpor, Inst::kIdVpandn, Inst::kIdVpcmpeqd, Inst::kIdVpcmpgtd, Inst::kIdVpshufd};
+      static const InstId evx[] = {Inst::kIdVpaddd, Inst::kIdVpsubd, Inst::kIdVpxord, Inst::kIdVpandd, Inst::kIdVpord, Inst::kIdVpandnd, Inst::kIdVpcmpeqd, Inst::kIdVpcmpgtd, Inst::kIdVpshufd};
+      const Vec& d = x[size_t(m.o[0].r)];
+      Operand b = m.o[2].t == T_MEM ? Operand(mem(m.o[2].m, 16)) : Operand(x[size_t(m.o[2].r)]);
+      if (!avx) { if (m.sub == V_PSHUFD) E(cc.emit(sse[m.sub], d, b, Imm(m.imm))); else E(cc.emit(sse[m.sub], d, b)); break; }
+      InstId id = (P.vmode == 2 && (m.kmask >= 0 || m.alt)) ? evx[m.sub] : vex[m.sub];
+      if (m.kmask >= 0) cc.k(k[size_t(m.kmask)]);
+      if (m.sub == V_PSHUFD) E(cc.emit(id, d, b, Imm(m.imm))); else E(cc.emit(id, d, x[size_t(m.o[1].r)], b));
+      break;
+    }
+    case M_VTERN: {
+      if (m.kmask >= 0) cc.k(k[size_t(m.kmask)]);
+      E(cc.emit(Inst::kIdVpternlogd, x[size_t(m.o[0].r)], x[size_t(m.o[1].r)], x[size_t(m.o[2].r)], Imm(m.imm))); break;
+    }
+    case M_KOP: {
+      const KReg& d = k[size_t(m.o[0].r)];
+      switch (m.sub) {
+        case KO_KG: E(cc.emit(Inst::kIdKmovw, d, gv(m.o[1].r, 32))); break;
+        case KO_GK: E(cc.emit(Inst::kIdKmovw, gv(m.o[1].r, 32), d)); break;
+        case KO_AND: E(cc.emit(Inst::kIdKandw, d, k[size_t(m.o[1].r)], k[size_t(m.o[2].r)])); break;
+        case KO_OR: E(cc.emit(Inst::kIdKorw, d, k[size_t(m.o[1].r)], k[size_t(m.o[2].r)])); break;
+        case KO_XOR: E(cc.emit(Inst::kIdKxorw, d, k[size_t(m.o[1].r)], k[size_t(m.o[2].r)])); break;
+        case KO_XNOR: E(cc.emit(Inst::kIdKxnorw, d, k[size_t(m.o[1].r)], k[size_t(m.o[2].r)])); break;
+        case KO_NOT: E(cc.emit(Inst::kIdKnotw, d, k[size_t(m.o[1].r)])); break;
+        case KO_KK: E(cc.emit(Inst::kIdKmovw, d, k[size_t(m.o[1].r)])); break;
+        case KO_KM: E(cc.emit(Inst::kIdKmovw, d, mem(m.o[1].m, 2))); break;
+        case KO_MK: E(cc.emit(Inst::kIdKmovw, mem(m.o[1].m, 2), d)); break;
+      }
+      break;
+    }
+    case M_KCMP: {
+      if (m.kmask >= 0) cc.k(k[size_t(m.kmask)]);
+      E(cc.emit(m.sub ? Inst::kIdVpcmpgtd : Inst::kIdVpcmpeqd, k[size_t(m.o[0].r)], x[size_t(m.o[1].r)], x[size_t(m.o[2].r)])); break;
+    }
+    case M_CALL: {
+      const char* sig = kCallees[m.sub];
+      FuncSignature fs(CallConvId::kCDecl);
+      fs.set_ret(sig[0] == 'x' ? TypeId::kInt32x4 : (is64 ? TypeId::kUInt64 : TypeId::kUInt32));
+      for (int i = 0; sig[1 + i]; i++) fs.add_arg(sig[1 + i] == 'x' ? TypeId::kInt32x4 : (sig[1 + i] == 'q' && is64) ? TypeId::kUInt64 : TypeId::kUInt32);
+      InvokeNode* inv = nullptr;
+      E(cc.invoke(Out(inv), imm(is64 ? kCalleePtr[m.sub] : (void*)0x1000), fs));
+      if (!inv) break;
+      for (int i = 0; i < m.nargs; i++) {
+        const Opnd& a = m.args[i];
+        if (a.t == T_VEC) inv->set_arg(size_t(i), x[size_t(a.r)]);
+        else if (a.t == T_IMM) inv->set_arg(size_t(i), Imm(is64 ? a.imm : int64_t(int32_t(a.imm))));
+        else inv->set_arg(size_t(i), g[size_t(a.r)]);
+      }
+      if (m.o[0].t == T_VEC) inv->set_ret(0, x[size_t(m.o[0].r)]); else inv->set_ret(0, g[size_t(m.o[0].r)]);
+      break;
+    }
+  }
+}
+
+void X86Emit::emit_list(const std::vector<Node>& l) {
+  using namespace x86;
+  for (const Node& n : l) {
+    switch (n.kind) {
+      case N_OP: for (const MOp& m : n.ops) emit_mop(m); break;
+      case N_IF: {
+        Label Lelse = cc.new_label(), Lend = cc.new_label();
+        for (const MOp& m : n.ops) emit_mop(m);
+        E(cc.emit(Inst::jcc_from_cond(CondCode(n.cc ^ 1)), Lelse));
+        emit_list(n.parts[0]);
+        E(cc.jmp(Lend));
+        E(cc.bind(Lelse));
+        emit_list(n.parts[1]);
+        E(cc.bind(Lend));
+        break;
+      }
+      case N_LOOP: {
+        Gp c = cc.new_gp32("loop"); Label L = cc.new_label();
+        E(cc.mov(c, n.n)); E(cc.bind(L));
+        emit_list(n.parts[0]);
+        if (n.flag) E(cc.sub(c, 1)); else E(cc.dec(c));
+        E(cc.jnz(L));
+        break;
+      }
+      case N_IRR: {
+        Gp c = cc.new_gp32("cyc"); Label LA = cc.new_label(), LB = cc.new_label();
+        E(cc.mov(c, n.n));
+        for (const MOp& m : n.ops) emit_mop(m);
+        E(cc.emit(Inst::jcc_from_cond(CondCode(n.cc)), LB));
+        E(cc.bind(LA)); emit_list(n.parts[0]);
+        E(cc.bind(LB)); emit_list(n.parts[1]);
+        E(cc.dec(c)); E(cc.jnz(LA));
+        break;
+      }
+      case N_SWITCH: {
+        size_t nc = n.parts.size();
+        Table t; t.L = cc.new_label(); std::vector<Label> cl; for (size_t i = 0; i < nc; i++) cl.push_back(cc.new_label());
+        Label Lend = cc.new_label();
+        for (int i = 0; i < n.ntab; i++) t.entries.push_back(cl[size_t(i) % nc]);
+        Gp idx = cc.new_gp_ptr("swidx"), tab = cc.new_gp_ptr("swtab"), tgt = cc.new_gp_ptr("swtgt");
+        E(cc.mov(idx.r32(), gv(n.sel, 32))); E(cc.and_(idx.r32(), 3));
+        E(cc.lea(tab, ptr(t.L)));
+        if (is64) E(cc.movsxd(tgt, dword_ptr(tab, idx, 2))); else E(cc.mov(tgt, dword_ptr(tab, idx, 2)));
+        E(cc.add(tgt, tab));
+        JumpAnnotation* ann = cc.new_jump_annotation();
+        if (ann) { for (size_t i = 0; i < nc; i++) ann->add_label(cl[i]); E(cc.jmp(tgt, ann)); }
+        for (size_t i = 0; i < nc; i++) {
+          E(cc.bind(cl[i])); if (n.pad) E(cc.nop()); emit_list(n.parts[i]);
+          if (!n.flag && i + 1 < nc) E(cc.jmp(Lend));
+        }
+        E(cc.bind(Lend));
+        tables.push_back(t);
+        break;
+      }
+      case N_RETIF: {
+        Label Lskip = cc.new_label();
+        for (const MOp& m : n.ops) emit_mop(m);
+        E(cc.emit(Inst::jcc_from_cond(CondCode(n.cc ^ 1)), Lskip));
+        Gp r = is64 ? cc.new_gp64("retv") : cc.new_gp32("retv");
+        if (is64) E(cc.mov(r, Imm(int64_t(kRetMarker)))); else E(cc.mov(r, Imm(int32_t(kRetMarker))));
+        if (P.gty[size_t(n.sel)] == 64 || !is64) E(cc.xor_(r, gv(n.sel, 64)));
+        else { Gp t2 = cc.new_gp64("retz"); E(cc.mov(t2.r32(), gv(n.sel, 32))); E(cc.xor_(r, t2)); }
+        E(cc.ret(r));
+        E(cc.bind(Lskip));
+        break;
+      }
+    }
+  }
+}
+
+void X86Emit::prologue() {
+  using namespace x86;
+  FuncSignature fs(CallConvId::kCDecl);
+  fs.set_ret(is64 ? TypeId::kUInt64 : TypeId::kUInt32);
+  fs.add_arg(TypeId::kUIntPtr);
+  for (int j = 0; j < P.nargs; j++) fs.add_arg(P.gty[size_t(j)] == 64 && is64 ? TypeId::kUInt64 : TypeId::kUInt32);
+  func = cc.add_func(fs);
+  if (!func) { first_err = Error::kOutOfMemory; return; }
+  if (P.vmode >= 1) func->frame().set_avx_enabled();
+  if (P.vmode == 2) func->frame().set_avx512_enabled();
+  bool avx = P.vmode >= 1;
+  buf = cc.new_gp_ptr("buf"); func->set_arg(0, buf);
+  for (size_t i = 0; i < P.gty.size(); i++) g.push_back(P.gty[i] == 64 && is64 ? cc.new_gp64("%c%u", i < size_t(P.ng) ? 'v' : 't', unsigned(i)) : cc.new_gp32("%c%u", i < size_t(P.ng) ? 'v' : 't', unsigned(i)));
+  for (int j = 0; j < P.nv; j++) x.push_back(cc.new_xmm("x%d", j));
+  for (int j = 0; j < P.nk; j++) k.push_back(cc.new_kw("k%d", j));
+  for (int j = 0; j < P.nargs; j++) func->set_arg(size_t(1 + j), g[size_t(j)]);
+  for (int s = 0; s < P.nslots; s++) {
+    slots.push_back(cc.new_stack(32, 16, "slot"));
+    for (int j = 0; j < 4; j++) {
+      Mem q = slots.back(); q.add_offset(8 * j);
+      if (is64) { q.set_size(8); E(cc.mov(q, Imm(slot_init(s, j)))); }
+      else { q.set_size(4); E(cc.mov(q, Imm(int32_t(slot_init(s, j))))); Mem q2 = q; q2.add_offset(4); E(cc.mov(q2, Imm(slot_init(s, j) < 0 ? -1 : 0))); }
+    }
+  }
+  for (int i = P.nargs; i < P.ng; i++) {
+    int ik = init_kind(P, i); int w = P.gty[size_t(i)];
+    if (ik == 0) { uint64_t v = init_const(i); E(cc.mov(gv(i, w), cc.new_const((i & 1) ? ConstPoolScope::kGlobal : ConstPoolScope::kLocal, &v, size_t(cw(w) / 8)))); }
+    else if (ik == 1) E(cc.mov(gv(i, w), Imm(int64_t(int32_t(init_const(i))))));
+    else E(cc.mov(gv(i, w), ptr(buf, OFF_GIN + 8 * i, uint32_t(cw(w) / 8))));
+  }
+  for (int j = 0; j < P.nv; j++) E(cc.emit(avx ? Inst::kIdVmovdqu : Inst::kIdMovdqu, x[size_t(j)], ptr(buf, OFF_VIN + 16 * j, 16)));
+  for (int j = 0; j < P.nk; j++) E(cc.kmovw(k[size_t(j)], ptr(buf, OFF_KIN + 8 * j, 2)));
+  for (int i = 0; i < pressure; i++) { pd.push_back(is64 ? cc.new_gp64("p%d", i) : cc.new_gp32("p%d", i)); E(cc.mov(pd.back(), ptr(buf, OFF_PIN + 8 * i, is64 ? 8 : 4))); }
+  int npv = P.nv ? std::min(pressure / 4, 40) : 0;
+  for (int j = 0; j < npv; j++) { pv.push_back(cc.new_xmm("pv%d", j)); E(cc.emit(avx ? Inst::kIdVmovdqu : Inst::kIdMovdqu, pv.back(), ptr(buf, OFF_VIN + 16 * (j % 48), 16))); }
+}
+
+void X86Emit::epilogue() {
+  using namespace x86;
+  bool avx = P.vmode >= 1;
+  acc = is64 ? cc.new_gp64("acc") : cc.new_gp32("acc");
+  tmp = is64 ? cc.new_gp64("tmp") : cc.new_gp32("tmp");
+  if (pressure) {
+    Gp acc2 = is64 ? cc.new_gp64("acc2") : cc.new_gp32("acc2");
+    E(cc.xor_(acc2.r32(), acc2.r32()));
+    for (auto& p : pd) { E(cc.rol(acc2, 3)); E(cc.xor_(acc2, p)); }
+    if (!pv.empty()) {
+      for (size_t j = 1; j < pv.size(); j++) { if (avx) E(cc.vpxor(pv[0], pv[0], pv[j])); else E(cc.pxor(pv[0], pv[j])); }
+      if (is64) E(cc.emit(avx ? Inst::kIdVmovq : Inst::kIdMovq, tmp, pv[0])); else E(cc.emit(avx ? Inst::kIdVmovd : Inst::kIdMovd, tmp, pv[0]));
+      E(cc.xor_(acc2, tmp));
+    }
+    E(cc.mov(ptr(buf, OFF_RES2, is64 ? 8 : 4), acc2));
+  }
+  E(cc.xor_(acc.r32(), acc.r32()));
+  for (int i = 0; i < P.ng; i++) if (P.folded(i)) {
+    int w = P.gty[size_t(i)];
+    E(cc.mov(ptr(buf, OFF_GOUT + 8 * i, uint32_t(cw(w) / 8)), gv(i, w)));
+    E(cc.rol(acc, 5));
+    if (w == 64 || !is64) E(cc.xor_(acc, gv(i, 64))); else { E(cc.mov(tmp.r32(), gv(i, 32))); E(cc.xor_(acc, tmp)); }
+  }
+  for (int j = 0; j < P.nv; j++) if (P.folded(j)) E(cc.emit(avx ? Inst::kIdVmovdqu : Inst::kIdMovdqu, ptr(buf, OFF_VOUT + 16 * j, 16), x[size_t(j)]));
+  for (int j = 0; j < P.nk; j++) if (P.folded(j)) E(cc.kmovw(ptr(buf, OFF_KOUT + 8 * j, 2), k[size_t(j)]));
+  E(cc.ret(acc));
+  E(cc.end_func());
+  for (Table& t : tables) {
+    E(cc.bind(t.L));
+    for (Label& e : t.entries) E(cc.embed_label_delta(e, t.L, 4));
+  }
+}
+
+// ------------------------------------------------------------------------------------------------
+// Compile driver (guards against ASMJIT_ASSERT aborts), post-RA inspection
+// ------------------------------------------------------------------------------------------------
+sigjmp_buf g_abort_jmp; volatile int g_abort_armed = 0;
+int g_real_stderr = -1, g_cap_fd = -1;
+std::string g_abort_text;     // stderr text captured while the last guarded section ran (assertion message)
+void abort_handler(int sig) { if (g_abort_armed) { g_abort_armed = 0; siglongjmp(g_abort_jmp, sig); } signal(sig, SIG_DFL); raise(sig); }
+extern "C" void __sanitizer_set_death_callback(void (*)(void));
+void flush_captured() {
+  if (g_cap_fd < 0 || g_real_stderr < 0) return;
+  char b[4096]; off_t n = lseek(g_cap_fd, 0, SEEK_CUR); if (n <= 0) return;
+  lseek(g_cap_fd, 0, SEEK_SET);
+  for (;;) { ssize_t r = read(g_cap_fd, b, sizeof b); if (r <= 0) break; if (write(g_real_stderr, b, size_t(r)) < 0) break; }
+}
+// Runs f; an ASMJIT_ASSERT failure (abort) inside f is turned into a return value, with the message captured from stderr.
+template<class F> int guarded(F&& f) {
+  if (g_cap_fd < 0) {
+    char name[64]; snprintf(name, sizeof name, "/tmp/c05-stderr-%d", int(getpid()));
+    g_cap_fd = open(name, O_CREAT | O_RDWR | O_TRUNC, 0600); unlink(name);
+    g_real_stderr = dup(2);
+    __sanitizer_set_death_callback(flush_captured);
+  }
+  fflush(stderr);
+  if (ftruncate(g_cap_fd, 0) < 0) {}
+  lseek(g_cap_fd, 0, SEEK_SET);
+  dup2(g_cap_fd, 2);
+  struct sigaction sa, old; memset(&sa, 0, sizeof sa); sa.sa_handler = abort_handler; sa.sa_flags = SA_NODEFER; sigemptyset(&sa.sa_mask);
+  sigaction(SIGABRT, &sa, &old);
+  int sig = sigsetjmp(g_abort_jmp, 1);
+  if (!sig) { g_abort_armed = 1; f(); g_abort_armed = 0; }
+  sigaction(SIGABRT, &old, nullptr);
+  fflush(stderr);
+  dup2(g_real_stderr, 2);
+  g_abort_text.clear();
+  off_t n = lseek(g_cap_fd, 0, SEEK_CUR);
+  if (n > 0) {
+    g_abort_text.resize(size_t(std::min<off_t>(n, 2000)));
+    if (pread(g_cap_fd, &g_abort_text[0], g_abort_text.size(), 0) < 0) g_abort_text.clear();
+    if (!sig) { if (write(g_real_stderr, g_abort_text.data(), g_abort_text.size()) < 0) {} }
+  }
+  return sig;
+}
+// "file:line" of an ASMJIT_ASSERT message, for failure keys
+std::string assert_site(const std::string& t) {
+  size_t a = t.find("Assertion failed at "); if (a == std::string::npos) return "unknown";
+  a += 20; size_t b = t.find(" (line ", a); if (b == std::string::npos) return "unknown";
+  size_t c = t.find(')', b); std::string file = t.substr(a, b - a); size_t sl = file.rfind('/'); if (sl != std::string::npos) file = file.substr(sl + 1);
+  return file + ":" + t.substr(b + 7, c - b - 7);
+}
+
+struct PostRA {
+  int n_load = 0, n_save = 0, n_move = 0, n_swap = 0, n_rm = 0, n_inst = 0;
+  std::string virt_left;        // first instruction that still has a virtual register
+  std::string bad_list_inst, bad_list_text;
+  int inserted() const { return n_load + n_save + n_move + n_swap + n_rm; }
+};
+
+std::string format_node(BaseBuilder* cb, BaseNode* node) {
+  String sb; FormatOptions fo; Formatter::format_node(sb, fo, cb, node); return std::string(sb.data(), sb.size());
+}
+std::string format_all(BaseBuilder* cb, size_t limit = 60000) {
+  String sb; FormatOptions fo; fo.add_flags(FormatFlags::kRegCasts);
+  Formatter::format_node_list(sb, fo, cb);
+  std::string s(sb.data(), sb.size());
+  if (s.size() > limit) s = s.substr(0, limit) + "\n...[truncated]";
+  return s;
+}
+
+inline bool opnd_has_virt(const Operand& o) {
+  if (o.is_reg()) return o.as<Reg>().is_virt_reg();
+  if (o.is_mem()) {
+    const BaseMem& m = o.as<BaseMem>();
+    if (m.is_reg_home()) return true;
+    if (m.has_base_reg() && Operand::is_virt_id(m.base_id())) return true;
+    if (m.has_index_reg() && Operand::is_virt_id(m.index_id())) return true;
+  }
+  return false;
+}
+
+// Walks the node list after the passes ran. `had_mem`: instruction nodes that had a memory operand before RA.
+void inspect_common(BaseBuilder* cb, const std::unordered_set<const BaseNode*>& pre_nodes, const std::unordered_set<const BaseNode*>& had_mem, PostRA& r) {
+  for (BaseNode* n = cb->first_node(); n; n = n->next()) {
+    if (!n->is_inst()) continue;
+    InstNode* in = n->as<InstNode>(); r.n_inst++;
+    const char* c = n->inline_comment();
+    if (c && c[0] == '<') {
+      if (!strncmp(c, "<LOAD>", 6)) r.n_load++; else if (!strncmp(c, "<SAVE>", 6)) r.n_save++; else if (!strncmp(c, "<MOVE>", 6)) r.n_move++; else if (!strncmp(c, "<SWAP>", 6)) r.n_swap++;
+    }
+    bool has_mem_now = false;
+    for (const Operand& o : in->operands()) {
+      if (o.is_mem()) has_mem_now = true;
+      if (r.virt_left.empty() && opnd_has_virt(o)) r.virt_left = format_node(cb, n);
+    }
+    if (in->has_extra_reg() && in->extra_reg().is_reg() && Operand::is_virt_id(in->extra_reg().id()) && r.virt_left.empty()) r.virt_left = format_node(cb, n);
+    if (has_mem_now && pre_nodes.count(n) && !had_mem.count(n)) r.n_rm++;
+  }
+}
+void snapshot_nodes(BaseBuilder* cb, std::unordered_set<const BaseNode*>& pre_nodes, std::unordered_set<const BaseNode*>& had_mem) {
+  for (BaseNode* n = cb->first_node(); n; n = n->next()) {
+    if (!n->is_inst()) continue;
+    pre_nodes.insert(n);
+    for (const Operand& o : n->as<InstNode>()->operands()) if (o.is_mem()) { had_mem.insert(n); break; }
+  }
+}
+
+struct BuiltX86 {
+  CodeHolder code; CaptureErrors eh; x86::Compiler cc; std::unique_ptr<X86Emit> em;
+  Error err = Error::kOk; std::string stage, abort_text; int abort_sig = 0;
+  PostRA post; void* fn = nullptr;
+  std::string describe() const { char b[64]; snprintf(b, sizeof b, "error %u", unsigned(err)); return stage + ": " + (abort_sig ? "ASMJIT_ASSERT: " + abort_text : std::string(b) + " " + DebugUtils::error_as_string(err) + " " + eh.msg); }
+};
+
+void build_x86(BuiltX86& B, const Prog& P, Arch arch, const CpuFeatures& feat, int pressure, JitRuntime* rt) {
+  Environment env(arch);
+  if (rt) env = rt->environment();
+  B.code.init(env, feat);
+  B.code.set_error_handler(&B.eh);
+  B.code.attach(&B.cc);
+  B.cc.add_diagnostic_options(DiagnosticOptions::kRAAnnotate);
+  B.em.reset(new X86Emit(B.cc, P, arch == Arch::kX64, pressure));
+  std::unordered_set<const BaseNode*> pre, had_mem;
+  B.abort_sig = guarded([&] {
+    B.stage = "emit";
+    B.em->build();
+    B.err = B.em->first_err != Error::kOk ? B.em->first_err : B.eh.err;
+    if (B.err != Error::kOk) return;
+    snapshot_nodes(&B.cc, pre, had_mem);
+    B.stage = "register-allocation";
+    B.err = B.cc.run_passes();
+    if (B.err != Error::kOk) return;
+    inspect_common(&B.cc, pre, had_mem, B.post);
+    B.stage = "serialize";
+    x86::Assembler a(&B.code);
+    B.err = B.cc.serialize_to(&a);
+    if (B.err != Error::kOk) return;
+    if (rt) { B.stage = "jit-add"; B.err = rt->add(&B.fn, &B.code); }
+  });
+  if (B.abort_sig) { B.err = Error::kInvalidState; B.abort_text = g_abort_text; }
+}
+
+// ------------------------------------------------------------------------------------------------
+// Inputs and execution
+// ------------------------------------------------------------------------------------------------
+struct Input { alignas(64) uint8_t mem[BUF_GUARD + BUF_SIZE + BUF_GUARD]; uint64_t args[kMaxArgs]; };
+
+void make_input(const Prog& P, int t, Input& in) {
+  static const uint64_t sp[] = {0, 1, ~0ull, 0x80000000ull, 0x7fffffffull, 0xff, 0x8000000000000000ull, 0x7fffffffffffffffull, 0xffffffffull, 0x100000000ull, 2, 0x80, 0xffff, 0x8000};
+  uint64_t s = mix64(P.inseed * 1000003ull + uint64_t(t) * 7919ull + 1);
+  auto word = [&]() -> uint64_t {
+    s = mix64(s); uint64_t r = s; int sel = int(r & 7); r >>= 3;
+    if (t == 0) return 0;
+    if (t == 1) return ~0ull;
+    switch (sel) { case 0: return sp[r % (sizeof sp / sizeof sp[0])]; case 1: return r & 15; case 2: return r & 0xffffffffull; case 3: return uint64_t(int64_t(int32_t(r))); default: return mix64(r); }
+  };
+  memset(in.mem, 0xA5, sizeof in.mem);
+  uint8_t* b = in.mem + BUF_GUARD;
+  memset(b, 0, BUF_SIZE);
+  for (int off = 0; off < OFF_GOUT; off += 8) { uint64_t v = word(); memcpy(b + off, &v, 8); }
+  for (int j = 0; j < kMaxArgs; j++) {
+    uint64_t v = word();
+    if (j < P.nargs && P.gty[size_t(j)] == 32) v = (v & 0xffffffffull) | (mix64(s + uint64_t(j)) << 32);   // upper half of a 32-bit argument is garbage
+    in.args[j] = v;
+  }
+}
+
+struct RunResult { int sig = 0; uint64_t ret = 0; bool callee_saved_ok = true; bool rsp_ok = true; uint64_t fault_rip = 0, fault_addr = 0; };
+
+RunResult run_compiled(void* fn, uint8_t* buf, const uint64_t* args, int t) {
+  static MState st;
+  uint64_t s = mix64(uint64_t(t) + 0xBADC0DE);
+  for (int i = 0; i < 16; i++) st.gpr[i] = (s = mix64(s)) | 0x8000000000000000ull;
+  for (int i = 0; i < 8; i++) st.k[i] = (s = mix64(s));
+  for (int i = 0; i < 32; i++) for (int j = 0; j < 64; j += 8) { s = mix64(s); memcpy(&st.zmm[i][j], &s, 8); }
+  for (int i = 0; i < MSC_STACK_WORDS; i++) st.stack[i] = (s = mix64(s));
+  st.rflags = 0x202 | (s & 0x8D5); st.mxcsr = 0x1F80;
+  static const int argreg[6] = {7, 6, 2, 1, 8, 9};
+  st.gpr[argreg[0]] = uint64_t(uintptr_t(buf));
+  for (int j = 0; j < kMaxArgs; j++) { int a = j + 1; if (a < 6) st.gpr[argreg[a]] = args[j]; else st.stack[a - 6] = args[j]; }
+  uint64_t saved[6] = {st.gpr[3], st.gpr[5], st.gpr[12], st.gpr[13], st.gpr[14], st.gpr[15]};
+  RunResult r;
+  r.sig = msc_run((void (*)(void))fn, &st);
+  if (r.sig) { r.fault_rip = msc_fault_rip(); r.fault_addr = msc_fault_addr(); return r; }
+  r.ret = st.gpr[0];
+  uint64_t now[6] = {st.gpr[3], st.gpr[5], st.gpr[12], st.gpr[13], st.gpr[14], st.gpr[15]};
+  r.callee_saved_ok = memcmp(saved, now, sizeof saved) == 0;
+  r.rsp_ok = st.rsp_exit == st.rsp_entry + 8;
+  return r;
+}
+
+// ------------------------------------------------------------------------------------------------
+// AArch64: the same tree mapped onto an a64 vocabulary (not executed: compile + structural checks only)
+// ------------------------------------------------------------------------------------------------
+struct A64Emit {
+  a64::Compiler& cc; const Prog& P;
+  Error first_err = Error::kOk;
+  std::vector<a64::Gp> g; std::vector<a64::Vec> x; std::vector<a64::Gp> pd;
+  a64::Gp buf;
+  struct Table { Label L; std::vector<Label> entries; };
+  std::vector<Table> tables;
+  int n_lists = 0;
+  A64Emit(a64::Compiler& c, const Prog& p) : cc(c), P(p) {}
+  void E(Error e) { if (e != Error::kOk && first_err == Error::kOk) first_err = e; }
+  a64::Gp gv(int r, int w) const { const a64::Gp& b = g[size_t(r)]; return (w == 64 && P.gty[size_t(r)] == 64) ? b.x() : b.w(); }
+  a64::Gp tmp(int w) { return w == 64 ? cc.new_gp64("t") : cc.new_gp32("t"); }
+  a64::Gp ptr_at(int off) { a64::Gp p = cc.new_gp64("p"); E(cc.mov(p, uint64_t(off))); E(cc.add(p, buf, p)); return p; }
+  int opw(const MOp& m) const { int w = m.w < 32 ? 32 : m.w; for (const Opnd& o : m.o) if (o.t == T_REG && P.gty[size_t(o.r)] == 32) w = 32; return w; }
+  a64::Vec vx(const Opnd& o) { return x[size_t(o.t == T_VEC ? o.r : 0) % x.size()]; }
+  a64::Mem addr(const MemRef& m, int wbytes) {
+    if (m.space == MS_BUF && m.idx >= 0) { a64::Gp p = ptr_at(OFF_SCR + (m.off & ~7)); return a64::ptr(p, g[size_t(m.idx)].x(), a64::lsl(uint32_t(wbytes == 8 ? 3 : wbytes == 4 ? 2 : wbytes == 2 ? 1 : 0))); }
+    int al = wbytes >= 8 ? 8 : wbytes;
+    if (m.space == MS_BUF) return a64::ptr(buf, (OFF_SCR + m.off) / al * al);
+    return a64::ptr(buf, (OFF_GIN + 8 * (m.off + m.slot * 4)) / al * al);      // slots/constants: a location inside the buffer
+  }
+  // value of an operand in a register of width w (loads memory / materialises immediates)
+  a64::Gp val(const Opnd& o, int w) {
+    if (o.t == T_REG) return gv(o.r, w);
+    a64::Gp t = tmp(w);
+    if (o.t == T_IMM) E(cc.mov(t, uint64_t(o.imm) & 0xFFFF)); else if (o.t == T_MEM) E(cc.ldr(t, addr(o.m, w / 8))); else E(cc.mov(t, 1));
+    return t;
+  }
+  void emit_mop(const MOp& m);
+  void emit_list(const std::vector<Node>& l);
+  void build();
+  void list_op(const MOp& m);
+};
+
+void A64Emit::list_op(const MOp& m) {
+  using namespace a64;
+  if (x.empty()) return;
+  // register-list instruction; members are distinct virtual registers (consecutive indices modulo nv, or a reversed/strided
+  // run so that different instructions ask for conflicting physical orders of the same virtual registers)
+  int n = 1 + int(m.imm & 3); int nv = int(x.size()); if (n > nv) n = nv;
+  int base = m.o[0].t == T_VEC ? m.o[0].r : 0; int stride = ((m.imm >> 2) & 1) ? nv - 1 : 1;
+  if (n > 1 && nv % 2 == 0 && stride != 1 && stride % nv == 0) stride = 1;
+  Vec v[4]; std::set<int> used; bool ok = true;
+  for (int i = 0; i < n; i++) { int id = umod(base + i * stride, nv); if (used.count(id)) ok = false; used.insert(id); v[i] = x[size_t(id)]; }
+  if (!ok) { n = 1; }
+  Gp p = ptr_at(OFF_SCR + ((m.o[1].t == T_MEM ? m.o[1].m.off : 0) & ~15) % 128);
+  Mem mp = a64::ptr(p);
+  int kind = int((m.imm >> 3) & 3);   // 0 ld1/st1 with n registers, 1 ldN/stN, 2 tbl, 3 tbx
+  bool store = (m.k == M_VMOV && m.sub == 2);
+  n_lists++;
+  if (kind >= 2) {
+    Vec d = x[size_t(umod(base + 5, nv))], idx = x[size_t(umod(base + 7, nv))];
+    InstId id = kind == 2 ? Inst::kIdTbl_v : Inst::kIdTbx_v;
+    switch (n) {
+      case 1: E(cc.emit(id, d.b16(), v[0].b16(), idx.b16())); break;
+      case 2: E(cc.emit(id, d.b16(), v[0].b16(), v[1].b16(), idx.b16())); break;
+      case 3: E(cc.emit(id, d.b16(), v[0].b16(), v[1].b16(), v[2].b16(), idx.b16())); break;
+      default: E(cc.emit(id, d.b16(), v[0].b16(), v[1].b16(), v[2].b16(), v[3].b16(), idx.b16())); break;
+    }
+    return;
+  }
+  static const InstId ldn[4] = {Inst::kIdLd1_v, Inst::kIdLd2_v, Inst::kIdLd3_v, Inst::kIdLd4_v};
+  static const InstId stn[4] = {Inst::kIdSt1_v, Inst::kIdSt2_v, Inst::kIdSt3_v, Inst::kIdSt4_v};
+  InstId id = store ? (kind == 1 ? stn[n - 1] : Inst::kIdSt1_v) : (kind == 1 ? ldn[n - 1] : Inst::kIdLd1_v);
+  switch (n) {
+    case 1: E(cc.emit(id, v[0].s4(), mp)); break;
+    case 2: E(cc.emit(id, v[0].s4(), v[1].s4(), mp)); break;
+    case 3: E(cc.emit(id, v[0].s4(), v[1].s4(), v[2].s4(), mp)); break;
+    default: E(cc.emit(id, v[0].s4(), v[1].s4(), v[2].s4(), v[3].s4(), mp)); break;
+  }
+}
+
+void A64Emit::emit_mop(const MOp& m) {
+  using namespace a64;
+  int w = opw(m);
+  switch (m.k) {
+    case M_ALU: {
+      if (m.sub == A_CMP || m.sub == A_TEST) { Gp a = val(m.o[0], w), b = val(m.o[1], w); if (m.sub == A_CMP) E(cc.cmp(a, b)); else E(cc.tst(a, b)); break; }
+      if (m.sub == A_XCHG && m.o[0].t == T_REG && m.o[1].t == T_REG) { Gp t = tmp(w); E(cc.mov(t, gv(m.o[0].r, w))); E(cc.mov(gv(m.o[0].r, w), gv(m.o[1].r, w))); E(cc.mov(gv(m.o[1].r, w), t)); break; }
+      bool dmem = m.o[0].t == T_MEM;
+      Gp d = dmem ? tmp(w) : gv(m.o[0].r, w);
+      Mem dm; if (dmem) { dm = addr(m.o[0].m, w / 8); if (m.sub != A_MOV) E(cc.ldr(d, dm)); }
+      Gp s = val(m.o[1], w);
+      switch (m.sub) {
+        case A_ADD: case A_XADD: E(cc.add(d, d, s)); break; case A_SUB: E(cc.sub(d, d, s)); break; case A_AND: E(cc.and_(d, d, s)); break;
+        case A_OR: E(cc.orr(d, d, s)); break; case A_XOR: case A_XCHG: E(cc.eor(d, d, s)); break; case A_MOV: E(cc.mov(d, s)); break;
+        default: E(cc.mul(d, d, s)); break;
+      }
+      if (dmem) E(cc.str(d, dm));
+      break;
+    }
+    case M_UN: {
+      bool dmem = m.o[0].t == T_MEM; Gp d = dmem ? tmp(w) : gv(m.o[0].r, w); Mem dm; if (dmem) { dm = addr(m.o[0].m, w / 8); E(cc.ldr(d, dm)); }
+      if (m.sub == U_NOT) E(cc.mvn(d, d)); else if (m.sub == U_NEG) E(cc.neg(d, d)); else if (m.sub == U_INC) E(cc.add(d, d, 1)); else E(cc.sub(d, d, 1));
+      if (dmem) E(cc.str(d, dm));
+      break;
+    }
+    case M_IMUL3: { Gp t = tmp(w); E(cc.mov(t, uint64_t(m.imm) & 0xFFFF)); E(cc.madd(gv(m.o[0].r, w), val(m.o[1], w), t, gv(m.o[0].r, w))); break; }
+    case M_LEA: {
+      Gp d = gv(m.o[0].r, w);
+      if (m.o[1].t == T_REG && m.o[2].t == T_REG) E(cc.add(d, gv(m.o[1].r, w), gv(m.o[2].r, w), lsl(uint32_t(m.imm & 3))));
+      else if (m.o[1].t == T_REG) E(cc.mov(d, gv(m.o[1].r, w))); else E(cc.lsl(d, gv(m.o[2].r, w), uint32_t(m.imm & 3)));
+      E(cc.add(d, d, uint64_t(m.o[3].imm) & 0xFFF));
+      break;
+    }
+    case M_MOVX: {
+      Gp s = val(m.o[1], 32); Gp d = gv(m.o[0].r, w);
+      if (m.sub == X_ZX) { if (m.w2 == 8) E(cc.uxtb(d.w(), s.w())); else E(cc.uxth(d.w(), s.w())); }
+      else { if (m.w2 == 8) E(cc.sxtb(d, s.w())); else if (m.w2 == 16) E(cc.sxth(d, s.w())); else if (w == 64) E(cc.sxtw(d, s.w())); else E(cc.mov(d, s.w())); }
+      break;
+    }
+    case M_SHIFT: {
+      if (m.o[0].t != T_REG) { Gp t = val(m.o[0], w); E(cc.lsl(t, t, 1)); E(cc.str(t, addr(m.o[0].m, w / 8))); break; }
+      Gp d = gv(m.o[0].r, w);
+      if (m.o[1].t == T_IMM) {
+        uint32_t c = uint32_t(m.o[1].imm) % uint32_t(w);
+        if (m.sub == S_SHL) E(cc.lsl(d, d, c)); else if (m.sub == S_SHR) E(cc.lsr(d, d, c)); else if (m.sub == S_SAR) E(cc.asr(d, d, c)); else E(cc.ror(d, d, c));
+      } else {
+        Gp c = gv(m.o[1].r, w);
+        if (m.sub == S_SHL) E(cc.lsl(d, d, c)); else if (m.sub == S_SHR) E(cc.lsr(d, d, c)); else if (m.sub == S_SAR) E(cc.asr(d, d, c)); else E(cc.ror(d, d, c));
+      }
+      break;
+    }
+    case M_CDQ: E(cc.asr(gv(m.o[0].r, w), gv(m.o[1].r, w), uint32_t(w - 1))); break;
+    case M_MULDIV: {
+      Gp hi = gv(m.o[0].r, w), lo = gv(m.o[1].r, w), s = val(m.o[2], w);
+      if (m.sub <= D_IMUL) { if (w == 64) { if (m.sub == D_MUL) E(cc.umulh(hi, lo, s)); else E(cc.smulh(hi, lo, s)); } else E(cc.madd(hi, lo, s, hi)); E(cc.mul(lo, lo, s)); }
+      else { Gp q = tmp(w); if (m.sub == D_DIV) E(cc.udiv(q, lo, s)); else E(cc.sdiv(q, lo, s)); E(cc.msub(hi, q, s, lo)); E(cc.mov(lo, q)); }
+      break;
+    }
+    case M_CMPXCHG: {
+      Gp acc = gv(m.o[2].r, w), s = gv(m.o[1].r, w);
+      if (m.o[0].t == T_REG) { Gp d = gv(m.o[0].r, w); E(cc.cmp(acc, d)); Gp t = tmp(w); E(cc.mov(t, d)); E(cc.csel(d, s, d, arm::CondCode::kEQ)); E(cc.csel(acc, acc, t, arm::CondCode::kEQ)); }
+      else { Gp d = tmp(w); Mem dm = addr(m.o[0].m, w / 8); E(cc.ldr(d, dm)); E(cc.cmp(acc, d)); E(cc.csel(acc, acc, d, arm::CondCode::kEQ)); E(cc.csel(d, s, d, arm::CondCode::kEQ)); E(cc.str(d, dm)); }
+      break;
+    }
+    case M_SETCC: E(cc.cset(gv(m.o[0].r, 32), arm::CondCode(2 + m.cc % 14))); break;
+    case M_CMOV: { Gp d = gv(m.o[0].r, w); E(cc.csel(d, val(m.o[1], w), d, arm::CondCode(2 + m.cc % 14))); break; }
+    case M_BT: {
+      Gp a = gv(m.o[0].r, w), t = tmp(w);
+      if (m.o[1].t == T_IMM) E(cc.lsr(t, a, uint32_t(m.o[1].imm) % uint32_t(w))); else E(cc.lsr(t, a, gv(m.o[1].r, w)));
+      if (m.sub == B_BT) E(cc.tst(t, 1)); else { Gp one = tmp(w); E(cc.mov(one, 1)); if (m.o[1].t == T_REG) E(cc.lsl(one, one, gv(m.o[1].r, w))); if (m.sub == B_BTS) E(cc.orr(a, a, one)); else if (m.sub == B_BTR) E(cc.bic(a, a, one)); else E(cc.eor(a, a, one)); }
+      break;
+    }
+    case M_CNT: { Gp d = gv(m.o[0].r, w), s = val(m.o[1], w); if (m.sub == C_TZCNT) { E(cc.rbit(d, s)); E(cc.clz(d, d)); } else E(cc.clz(d, s)); break; }
+    case M_VGX: {
+      Vec v = vx(m.o[0]); Gp r = g[size_t(m.o[1].r)];
+      switch (m.sub) {
+        case G_MOVD_XG: E(cc.fmov(v.s(), r.w())); break; case G_MOVD_GX: E(cc.fmov(r.w(), v.s())); break;
+        case G_MOVQ_XG: E(cc.fmov(v.d(), r.x())); break; case G_MOVQ_GX: E(cc.fmov(r.x(), v.d())); break;
+        case G_PINSRD: E(cc.ins(v.s(uint32_t(m.imm & 3)), r.w())); break; default: E(cc.umov(r.w(), v.s(uint32_t(m.imm & 3)))); break;
+      }
+      break;
+    }
+    case M_VMOV: {
+      if (m.sub == 0) { E(cc.mov(vx(m.o[0]).b16(), vx(m.o[1]).b16())); break; }
+      if (m.alt) { list_op(m); break; }
+      int off = (OFF_SCR + (m.o[1].m.off & ~15)) ;
+      if (m.o[1].m.off & 16) { Vec b = x[size_t(m.o[0].r + 1) % x.size()]; if (b.id() != vx(m.o[0]).id()) { Gp pp = ptr_at(off); if (m.sub == 1) E(cc.ldp(vx(m.o[0]).q(), b.q(), a64::ptr(pp))); else E(cc.stp(vx(m.o[0]).q(), b.q(), a64::ptr(pp, 32))); break; } }
+      if (m.sub == 1) E(cc.ldr(vx(m.o[0]).q(), a64::ptr(buf, off))); else E(cc.str(vx(m.o[0]).q(), a64::ptr(buf, off)));
+      break;
+    }
+    case M_VALU: case M_VTERN: {
+      if (m.k == M_VTERN || m.sub == V_PSHUFD) { list_op(m); break; }
+      Vec d = vx(m.o[0]), a = vx(m.o[1]), b = m.o[2].t == T_VEC ? vx(m.o[2]) : d;
+      switch (m.sub) {
+        case V_PADDD: E(cc.add(d.s4(), a.s4(), b.s4())); break; case V_PSUBD: E(cc.sub(d.s4(), a.s4(), b.s4())); break;
+        case V_PXOR: E(cc.eor(d.b16(), a.b16(), b.b16())); break; case V_PAND: E(cc.and_(d.b16(), a.b16(), b.b16())); break;
+        case V_POR: E(cc.orr(d.b16(), a.b16(), b.b16())); break; case V_PANDN: E(cc.bic(d.b16(), a.b16(), b.b16())); break;
+        case V_PCMPEQD: E(cc.cmeq(d.s4(), a.s4(), b.s4())); break; default: E(cc.cmgt(d.s4(), a.s4(), b.s4())); break;
+      }
+      break;
+    }
+    case M_KOP: case M_KCMP: { if (!g.empty()) E(cc.add(g[0], g[0], 1)); break; }
+    case M_CALL: {
+      const char* sig = kCallees[m.sub];
+      FuncSignature fs(CallConvId::kCDecl);
+      fs.set_ret(sig[0] == 'x' ? TypeId::kInt32x4 : TypeId::kUInt64);
+      for (int i = 0; sig[1 + i]; i++) fs.add_arg(sig[1 + i] == 'x' ? TypeId::kInt32x4 : sig[1 + i] == 'q' ? TypeId::kUInt64 : TypeId::kUInt32);
+      Gp fn = cc.new_gp64("fn"); E(cc.mov(fn, uint64_t(0x12345678)));
+      InvokeNode* inv = nullptr; E(cc.invoke(Out(inv), fn, fs));
+      if (!inv) break;
+      for (int i = 0; i < m.nargs; i++) {
+        const Opnd& a = m.args[i];
+        if (a.t == T_VEC) inv->set_arg(size_t(i), x[size_t(a.r)]); else if (a.t == T_IMM) inv->set_arg(size_t(i), Imm(a.imm)); else inv->set_arg(size_t(i), g[size_t(a.r)]);
+      }
+      if (m.o[0].t == T_VEC) inv->set_ret(0, x[size_t(m.o[0].r)]); else inv->set_ret(0, g[size_t(m.o[0].r)]);
+      break;
+    }
+  }
+}
+
+void A64Emit::emit_list(const std::vector<Node>& l) {
+  using namespace a64;
+  for (const Node& n : l) {
+    switch (n.kind) {
+      case N_OP: for (const MOp& m : n.ops) emit_mop(m); break;
+      case N_IF: {
+        Label Lelse = cc.new_label(), Lend = cc.new_label();
+        for (const MOp& m : n.ops) emit_mop(m);
+        if (n.cc == 4 && n.ops.size() && n.ops[0].o[0].t == T_REG) E(cc.cbz(gv(n.ops[0].o[0].r, 32), Lelse));
+        else if (n.cc == 5 && n.ops.size() && n.ops[0].o[0].t == T_REG) E(cc.tbnz(gv(n.ops[0].o[0].r, 32), 3, Lelse));
+        else E(cc.b(arm::CondCode(2 + n.cc % 14), Lelse));
+        emit_list(n.parts[0]); E(cc.b(Lend)); E(cc.bind(Lelse)); emit_list(n.parts[1]); E(cc.bind(Lend));
+        break;
+      }
+      case N_LOOP: {
+        Gp c = cc.new_gp32("loop"); Label L = cc.new_label();
+        E(cc.mov(c, n.n)); E(cc.bind(L)); emit_list(n.parts[0]);
+        if (n.flag) { E(cc.sub(c, c, 1)); E(cc.cbnz(c, L)); } else { E(cc.subs(c, c, 1)); E(cc.b_ne(L)); }
+        break;
+      }
+      case N_IRR: {
+        Gp c = cc.new_gp32("cyc"); Label LA = cc.new_label(), LB = cc.new_label();
+        E(cc.mov(c, n.n)); for (const MOp& m : n.ops) emit_mop(m);
+        E(cc.b(arm::CondCode(2 + n.cc % 14), LB));
+        E(cc.bind(LA)); emit_list(n.parts[0]); E(cc.bind(LB)); emit_list(n.parts[1]);
+        E(cc.subs(c, c, 1)); E(cc.b_ne(LA));
+        break;
+      }
+      case N_SWITCH: {
+        size_t nc = n.parts.size();
+        Table t; t.L = cc.new_label(); std::vector<Label> cl; for (size_t i = 0; i < nc; i++) cl.push_back(cc.new_label());
+        Label Lend = cc.new_label();
+        for (int i = 0; i < n.ntab; i++) t.entries.push_back(cl[size_t(i) % nc]);
+        Gp idx = cc.new_gp64("swidx"), tab = cc.new_gp64("swtab"), off = cc.new_gp64("swoff");
+        E(cc.and_(idx.w(), gv(n.sel, 32), 3));
+        E(cc.adr(tab, t.L));
+        E(cc.ldrsw(off, a64::ptr(tab, idx, lsl(2))));
+        E(cc.add(tab, tab, off));
+        JumpAnnotation* ann = cc.new_jump_annotation();
+        if (ann) { for (size_t i = 0; i < nc; i++) ann->add_label(cl[i]); E(cc.br(tab, ann)); }
+        for (size_t i = 0; i < nc; i++) { E(cc.bind(cl[i])); if (n.pad) E(cc.nop()); emit_list(n.parts[i]); if (!n.flag && i + 1 < nc) E(cc.b(Lend)); }
+        E(cc.bind(Lend));
+        tables.push_back(t);
+        break;
+      }
+      case N_RETIF: {
+        Label Lskip = cc.new_label();
+        for (const MOp& m : n.ops) emit_mop(m);
+        E(cc.b(arm::CondCode(2 + (n.cc ^ 1) % 14), Lskip));
+        Gp r = cc.new_gp64("retv"); E(cc.mov(r, 0xC0DE));
+        if (P.gty[size_t(n.sel)] == 64) E(cc.eor(r, r, g[size_t(n.sel)].x())); else E(cc.eor(r.w(), r.w(), g[size_t(n.sel)].w()));
+        E(cc.ret(r)); E(cc.bind(Lskip));
+        break;
+      }
+    }
+  }
+}
+
+void A64Emit::build() {
+  using namespace a64;
+  FuncSignature fs(CallConvId::kCDecl);
+  fs.set_ret(TypeId::kUInt64); fs.add_arg(TypeId::kUIntPtr);
+  for (int j = 0; j < P.nargs; j++) fs.add_arg(P.gty[size_t(j)] == 64 ? TypeId::kUInt64 : TypeId::kUInt32);
+  FuncNode* func = cc.add_func(fs);
+  if (!func) { first_err = Error::kOutOfMemory; return; }
+  buf = cc.new_gp64("buf"); func->set_arg(0, buf);
+  for (size_t i = 0; i < P.gty.size(); i++) g.push_back(P.gty[i] == 64 ? cc.new_gp64("v%u", unsigned(i)) : cc.new_gp32("v%u", unsigned(i)));
+  for (int j = 0; j < P.nv; j++) x.push_back(cc.new_vec_q("x%d", j));
+  for (int j = 0; j < P.nargs; j++) func->set_arg(size_t(1 + j), g[size_t(j)]);
+  for (int i = P.nargs; i < P.ng; i++) {
+    if (i + 1 < P.ng && (i & 3) == 0 && P.gty[size_t(i)] == P.gty[size_t(i + 1)]) { Gp pp = ptr_at(OFF_GIN + 8 * i); E(cc.ldp(g[size_t(i)], g[size_t(i + 1)], a64::ptr(pp))); i++; }
+    else E(cc.ldr(g[size_t(i)], a64::ptr(buf, OFF_GIN + 8 * i)));
+  }
+  for (int j = 0; j < P.nv; j++) E(cc.ldr(x[size_t(j)].q(), a64::ptr(buf, OFF_VIN + 16 * j)));
+  for (int i = 0; i < P.pressure; i++) { pd.push_back(cc.new_gp64("p%d", i)); E(cc.ldr(pd.back(), a64::ptr(buf, OFF_PIN + 8 * i))); }
+  emit_list(P.body);
+  Gp acc = cc.new_gp64("acc"); E(cc.mov(acc, 0));
+  for (auto& p : pd) E(cc.eor(acc, acc, p, ror(3)));
+  for (int i = 0; i < P.ng; i++) if (P.folded(i)) {
+    if (i + 1 < P.ng && (i & 7) == 0 && P.folded(i + 1) && P.gty[size_t(i)] == 64 && P.gty[size_t(i + 1)] == 64) { Gp pp = ptr_at(OFF_GOUT + 8 * i); E(cc.stp(g[size_t(i)], g[size_t(i + 1)], a64::ptr(pp, 8 * 0))); E(cc.str(g[size_t(i)], a64::ptr(buf, OFF_GOUT + 8 * i))); }
+    else E(cc.str(g[size_t(i)], a64::ptr(buf, OFF_GOUT + 8 * i)));
+    if (P.gty[size_t(i)] == 64) E(cc.eor(acc, acc, g[size_t(i)].x(), ror(5))); else E(cc.eor(acc.w(), acc.w(), g[size_t(i)].w(), ror(5)));
+  }
+  for (int j = 0; j < P.nv; j++) if (P.folded(j)) E(cc.str(x[size_t(j)].q(), a64::ptr(buf, OFF_VOUT + 16 * j)));
+  E(cc.ret(acc));
+  E(cc.end_func());
+  for (Table& t : tables) { E(cc.bind(t.L)); for (Label& e : t.entries) E(cc.embed_label_delta(e, t.L, 4)); }
+}
+
+struct BuiltA64 {
+  CodeHolder code; CaptureErrors eh; a64::Compiler cc; std::unique_ptr<A64Emit> em;
+  Error err = Error::kOk; std::string stage, abort_text; int abort_sig = 0; PostRA post;
+  std::string describe() const { char b[64]; snprintf(b, sizeof b, "error %u", unsigned(err)); return stage + ": " + (abort_sig ? "ASMJIT_ASSERT: " + abort_text : std::string(b) + " " + DebugUtils::error_as_string(err) + " " + eh.msg); }
+};
+
+// register-list operands of ld1-ld4/st1-st4/tbl/tbx must be consecutive modulo 32
+void inspect_a64_lists(BaseBuilder* cb, PostRA& r) {
+  for (BaseNode* n = cb->first_node(); n; n = n->next()) {
+    if (!n->is_inst()) continue;
+    InstNode* in = n->as<InstNode>();
+    InstId id = in->real_id();
+    const char* name = nullptr; size_t first = 0, last = 0; size_t oc = in->op_count();
+    switch (id) {
+      case a64::Inst::kIdLd1_v: name = "ld1"; break; case a64::Inst::kIdLd2_v: name = "ld2"; break; case a64::Inst::kIdLd3_v: name = "ld3"; break; case a64::Inst::kIdLd4_v: name = "ld4"; break;
+      case a64::Inst::kIdSt1_v: name = "st1"; break; case a64::Inst::kIdSt2_v: name = "st2"; break; case a64::Inst::kIdSt3_v: name = "st3"; break; case a64::Inst::kIdSt4_v: name = "st4"; break;
+      case a64::Inst::kIdTbl_v: name = "tbl"; break; case a64::Inst::kIdTbx_v: name = "tbx"; break;
+      default: continue;
+    }
+    if (id == a64::Inst::kIdTbl_v || id == a64::Inst::kIdTbx_v) { first = 1; last = oc >= 2 ? oc - 2 : 0; } else { first = 0; last = oc >= 2 ? oc - 2 : 0; }
+    for (size_t i = first; i < last; i++) {
+      const Operand& a = in->op(i); const Operand& b = in->op(i + 1);
+      if (!a.is_reg() || !b.is_reg() || a.as<Reg>().is_virt_reg() || b.as<Reg>().is_virt_reg()) continue;
+      if (((a.as<Reg>().id() + 1) & 31) != b.as<Reg>().id() && r.bad_list_inst.empty()) { r.bad_list_inst = name; r.bad_list_text = format_node(cb, n); }
+    }
+  }
+}
+
+void build_a64(BuiltA64& B, const Prog& P) {
+  Environment env(Arch::kAArch64);
+  CpuFeatures feat; feat.add(CpuFeatures::ARM::kASIMD, CpuFeatures::ARM::kIDIVA);
+  B.code.init(env, feat);
+  B.code.set_error_handler(&B.eh);
+  B.code.attach(&B.cc);
+  B.cc.add_diagnostic_options(DiagnosticOptions::kRAAnnotate);
+  B.em.reset(new A64Emit(B.cc, P));
+  std::unordered_set<const BaseNode*> pre, had_mem;
+  B.abort_sig = guarded([&] {
+    B.stage = "emit";
+    B.em->build();
+    B.err = B.em->first_err != Error::kOk ? B.em->first_err : B.eh.err;
+    if (B.err != Error::kOk) return;
+    snapshot_nodes(&B.cc, pre, had_mem);
+    B.stage = "register-allocation";
+    B.err = B.cc.run_passes();
+    if (B.err != Error::kOk) return;
+    inspect_common(&B.cc, pre, had_mem, B.post);
+    inspect_a64_lists(&B.cc, B.post);
+    B.stage = "serialize";
+    a64::Assembler a(&B.code);
+    B.err = B.cc.serialize_to(&a);
+  });
+  if (B.abort_sig) { B.err = Error::kInvalidState; B.abort_text = g_abort_text; }
+}
+
+
+// ------------------------------------------------------------------------------------------------
+// The property
+// ------------------------------------------------------------------------------------------------
+std::string region_of(int off) {
+  char b[64];
+  if (off < 0 || off >= BUF_SIZE) snprintf(b, sizeof b, "guard area (offset %d)", off);
+  else if (off < OFF_VIN) snprintf(b, sizeof b, "GP input v%d", off / 8);
+  else if (off < OFF_KIN) snprintf(b, sizeof b, "vector input x%d", (off - OFF_VIN) / 16);
+  else if (off < OFF_PIN) snprintf(b, sizeof b, "mask input k%d", (off - OFF_KIN) / 8);
+  else if (off < OFF_SCR) snprintf(b, sizeof b, "pressure input p%d", (off - OFF_PIN) / 8);
+  else if (off < OFF_GOUT) snprintf(b, sizeof b, "scratch+%d", off - OFF_SCR);
+  else if (off < OFF_VOUT) snprintf(b, sizeof b, "final value of v%d (byte %d)", (off - OFF_GOUT) / 8, (off - OFF_GOUT) % 8);
+  else if (off < OFF_KOUT) snprintf(b, sizeof b, "final value of x%d (byte %d)", (off - OFF_VOUT) / 16, (off - OFF_VOUT) % 16);
+  else if (off < OFF_RES2) snprintf(b, sizeof b, "final value of k%d", (off - OFF_KOUT) / 8);
+  else snprintf(b, sizeof b, "pressure accumulator");
+  return b;
+}
+
+std::string hex_bytes(const uint8_t* p, int n) { std::string s; char b[4]; for (int i = 0; i < n; i++) { snprintf(b, sizeof b, "%02x", p[i]); s += b; } return s; }
+
+bool g_keyop = false;
+bool report(vh::Ctx& ctx, const std::string& key0, const std::string& head, const Prog& P, BaseBuilder* cb) {
+  std::string key = key0;
+  if (g_keyop && !P.body.empty()) { key += std::string("@") + kHName[P.body[0].hl]; if (!P.body[0].ops.empty()) key += "/" + show_mop(P, P.body[0].ops.back()).substr(0, show_mop(P, P.body[0].ops.back()).find(' ')); }
+  if (ctx.is_known(key)) return ctx.fail_unless_known(key, head);
+  std::string msg = head + "\n--- IR ---\n" + show_prog(P);
+  if (cb) msg += "--- node list after register allocation ---\n" + format_all(cb);
+  return ctx.fail_unless_known(key, msg);
+}
+
+const char* pressure_bucket(int live) { return live <= 6 ? "live_001_006" : live <= 13 ? "live_007_013" : live <= 16 ? "live_014_016" : live <= 30 ? "live_017_030" : live <= 80 ? "live_031_080" : "live_081_400"; }
+
+struct Globals { bool dump = false; int inputs = 32; bool no32 = false, noa64 = false, nometa = false; } G;
+
+} // namespace
+
+void vh_init(const vh::Opts& o, vh::Ctx&) {
+  G.dump = o.geti("dump", 0) != 0; g_keyop = o.geti("keyop", 0) != 0; G.inputs = int(o.geti("inputs", 32));
+  G.no32 = o.geti("no32", 0) != 0; G.noa64 = o.geti("noa64", 0) != 0; G.nometa = o.geti("nometa", 0) != 0;
+}
+
+struct Outcome {
+  bool fail = false; std::string key, head, listing;
+  PostRA post; std::vector<uint64_t> rets;
+};
+
+// Compiles P for x86-64 (with `pressure` dummies), runs it on the inputs and compares with the interpreter.
+static void check_x64(const Prog& P, JitRuntime& rt, const CpuFeatures& feat, int pressure, int ninputs, const std::vector<uint64_t>* ref_rets, Outcome& out) {
+  std::unique_ptr<BuiltX86> Bp(new BuiltX86());
+  BuiltX86& B = *Bp;
+  build_x86(B, P, Arch::kX64, feat, pressure, &rt);
+  if (G.dump) { printf("%s", show_prog(P).c_str()); printf("--- x64 (pressure %d) ---\n%s\n", pressure, format_all(&B.cc).c_str()); }
+  auto fail = [&](const std::string& key, const std::string& head, bool listing) { out.fail = true; out.key = key; out.head = head; if (listing) out.listing = format_all(&B.cc); };
+  if (B.err != Error::kOk) { fail(B.abort_sig ? "asmjit-assert:x64:" + assert_site(B.abort_text) : std::string("compile-error-on-valid-program:x64"), B.describe(), B.stage != "emit" && !B.abort_sig); return; }
+  out.post = B.post;
+  if (!B.post.virt_left.empty()) { fail("virtual-reg-left:x64", "after RA: " + B.post.virt_left, true); return; }
+  static Input in, exp, act;
+  Interp I(P);
+  out.rets.assign(size_t(ninputs), 0);
+  char head[640];
+  for (int t = 0; t < ninputs && !out.fail; t++) {
+    make_input(P, t, in);
+    memcpy(&exp, &in, sizeof in); memcpy(&act, &in, sizeof in);
+    uint64_t want = ref_rets ? (*ref_rets)[size_t(t)] : I.run(exp.mem + BUF_GUARD, in.args);
+    g_log_actual.clear();
+    RunResult r = run_compiled(B.fn, act.mem + BUF_GUARD, in.args, t);
+    out.rets[size_t(t)] = r.ret;
+    if (r.sig) {
+      snprintf(head, sizeof head, "input %d: compiled code raised signal %d at code offset %lld (fault address %#llx)", t, r.sig, (long long)(r.fault_rip - uint64_t(uintptr_t(B.fn))), (unsigned long long)r.fault_addr);
+      fail("compiled-code-faulted", head, true); break; }
+    if (!r.callee_saved_ok || !r.rsp_ok) { snprintf(head, sizeof head, "input %d: callee-saved register or stack pointer not preserved (rsp_ok=%d)", t, int(r.rsp_ok)); fail("callee-saved-not-preserved", head, true); break; }
+    if (ref_rets) {   // metamorphic run: only the return value (and absence of faults) is compared
+      if (r.ret != want) { snprintf(head, sizeof head, "input %d: build with %d pressure values returns %#llx, the other build %#llx", t, pressure, (unsigned long long)r.ret, (unsigned long long)want); fail("pressure-changes-result", head, true); }
+      continue;
+    }
+    if (r.ret != want) {
+      snprintf(head, sizeof head, "input %d: return value %#llx, interpreter %#llx (xor %#llx)", t, (unsigned long long)r.ret, (unsigned long long)want, (unsigned long long)(r.ret ^ want));
+      std::string h = head;
+      for (int off = 0; off < BUF_SIZE; off++) if (exp.mem[BUF_GUARD + off] != act.mem[BUF_GUARD + off]) {
+        int a0 = off & ~7; h += "; first differing memory: " + region_of(off) + " expected " + hex_bytes(exp.mem + BUF_GUARD + a0, 16) + " actual " + hex_bytes(act.mem + BUF_GUARD + a0, 16); break; }
+      fail("wrong-return", h, true); break; }
+    if (memcmp(exp.mem, act.mem, sizeof exp.mem) != 0) {
+      int off = 0; while (exp.mem[off] == act.mem[off]) off++;
+      off -= BUF_GUARD; int a0 = std::max(0, off & ~7);
+      snprintf(head, sizeof head, "input %d: memory differs at buffer offset %d = %s: expected %s actual %s", t, off, region_of(off).c_str(),
+               hex_bytes(exp.mem + BUF_GUARD + a0, 16).c_str(), hex_bytes(act.mem + BUF_GUARD + a0, 16).c_str());
+      fail("wrong-memory", head, true); break; }
+    if (!(I.log == g_log_actual)) {
+      size_t i = 0; while (i < I.log.size() && i < g_log_actual.size() && I.log[i] == g_log_actual[i]) i++;
+      std::string h = "input " + std::to_string(t) + ": call log differs at call #" + std::to_string(i) + " (expected " + std::to_string(I.log.size()) + " calls, actual " + std::to_string(g_log_actual.size()) + ")";
+      auto show = [&](const std::vector<CallRec>& l) { std::string s2; if (i < l.size()) { s2 = " callee" + std::to_string(l[i].id) + "("; for (int a = 0; kCallees[l[i].id][1 + a]; a++) { char b[48]; snprintf(b, sizeof b, "%s%#llx", a ? ", " : "", (unsigned long long)l[i].a[a][0]); s2 += b; } s2 += ")"; } else s2 = " <none>"; return s2; };
+      h += " expected:" + show(I.log) + " actual:" + show(g_log_actual);
+      fail("wrong-call-log", h, true); break; }
+  }
+  if (B.fn) rt.release(B.fn);
+}
+
+static void check_all_x64(const Prog& P, JitRuntime& rt, const CpuFeatures& feat, int ninputs, Outcome& out) {
+  check_x64(P, rt, feat, P.pressure, ninputs, nullptr, out);
+  if (out.fail || P.pressure == 0 || G.nometa) return;
+  Outcome m; check_x64(P, rt, feat, 0, std::min(ninputs, 8), &out.rets, m);
+  if (m.fail) { out.fail = true; out.key = m.key == "wrong-return" ? "pressure-changes-result" : m.key; out.head = "unpressured variant: " + m.head; out.listing = m.listing; }
+}
+
+void vh_run(const vh::Case& c, vh::Ctx& ctx) {
+  Excl ex;
+  for (int i = 0; i < EX_COUNT_; i++) ex.on[i] = ctx.is_known(std::string("miscompiled:") + kExName[i]);
+  std::unique_ptr<Prog> Pp(new Prog());
+  Prog& P = *Pp;
+  decode_case(c, ex, P);
+  if (P.n_excluded) ctx.known_excluded("excluded-known-trigger-shapes");
+
+  // ---- class counters ----
+  {
+    std::function<void(const std::vector<Node>&)> walk = [&](const std::vector<Node>& l) {
+      for (const Node& n : l) { ctx.cls(std::string("op_") + kHName[n.hl]); for (auto& p : n.parts) walk(p); }
+    };
+    walk(P.body);
+    int live_gp = 0; for (int i = 0; i < P.ng; i++) if (P.folded(i)) live_gp++;
+    ctx.cls(std::string("gp_") + pressure_bucket(live_gp + P.pressure));
+    if (P.nv) ctx.cls(std::string("vec_") + pressure_bucket(P.nv + (P.pressure / 4)));
+    ctx.cls(P.vmode == 0 ? "vmode_sse" : P.vmode == 1 ? "vmode_avx" : "vmode_avx512");
+    ctx.cls(P.body.empty() ? "shape_empty" : P.max_depth == 0 ? "shape_straight_line" : P.max_depth == 1 ? "shape_depth1" : "shape_nested");
+    if (P.n_calls) ctx.cls("has_call"); if (P.n_switch) ctx.cls("has_jump_table"); if (P.n_loops) ctx.cls("has_loop"); if (P.n_irr) ctx.cls("has_irreducible");
+    if (P.n_if) ctx.cls("has_diamond"); if (P.n_retif) ctx.cls("has_early_return"); if (P.n_fixed) ctx.cls("has_fixed_reg_inst");
+    if (P.n_partial) ctx.cls("has_partial_write"); if (P.n_idiom) ctx.cls("has_same_reg_idiom"); if (P.n_vec) ctx.cls("has_vector_op"); if (P.n_mask) ctx.cls("has_mask_op");
+    if (P.n_mem) ctx.cls("has_mem_operand"); if (P.nargs > 5) ctx.cls("has_stack_args"); if (P.nslots) ctx.cls("has_stack_slots"); if (P.ntemps) ctx.cls("has_temps");
+    if (P.tysel >= 2) ctx.cls("mixed_widths");
+  }
+
+  JitRuntime rt;
+  CpuFeatures feat = rt.cpu_features();
+  int ninputs = std::max(2, G.inputs);
+  Outcome out;
+  check_all_x64(P, rt, feat, ninputs, out);
+  if (out.fail) {
+    // attribution: does the failure disappear when one known trigger shape is excluded?
+    std::string key = out.key;
+    if (key != "compile-error-on-valid-program:x64" || true) {
+      for (int i = 0; i < EX_COUNT_; i++) {
+        if (ex.on[i]) continue;
+        Excl ex2 = ex; ex2.on[i] = true;
+        std::unique_ptr<Prog> P2(new Prog()); decode_case(c, ex2, *P2);
+        if (P2->n_excluded == P.n_excluded) continue;
+        Outcome o2; check_all_x64(*P2, rt, feat, ninputs, o2);
+        if (!o2.fail) { key = std::string("miscompiled:") + kExName[i]; out.head = "[" + out.key + "; disappears when the shape '" + kExName[i] + "' is excluded] " + out.head; break; }
+      }
+    }
+    std::string msg = out.head;
+    if (!ctx.is_known(key)) { msg += "\n--- IR ---\n" + show_prog(P); if (!out.listing.empty()) msg += "--- node list after register allocation ---\n" + out.listing; }
+    if (g_keyop && !P.body.empty()) key += std::string("@") + kHName[P.body[0].hl];
+    ctx.fail_unless_known(key, msg);
+    return;
+  }
+  const PostRA& post = out.post;
+  if (post.n_load) ctx.cls("ra_inserted_load"); if (post.n_save) ctx.cls("ra_inserted_save"); if (post.n_move) ctx.cls("ra_inserted_move");
+  if (post.n_swap) ctx.cls("ra_inserted_swap"); if (post.n_rm) ctx.cls("ra_reg_to_mem_operand");
+  ctx.cls("ra_inserted_nodes_total", uint64_t(post.inserted()));
+  if (P.pressure && !G.nometa) ctx.cls("metamorphic_pairs");
+
+  // ---- x86-32 and AArch64: not executed here. The analogous program must compile when the x86-64 build did, and the
+  //      post-RA node list must be structurally valid (no virtual register left, register lists consecutive). ----
+  if (!G.no32) {
+    std::unique_ptr<BuiltX86> B32(new BuiltX86());
+    build_x86(*B32, P, Arch::kX86, feat, P.pressure, nullptr);
+    ctx.cls("x86_32_builds");
+    if (B32->err != Error::kOk) { if (!report(ctx, B32->abort_sig ? "asmjit-assert:x86:" + assert_site(B32->abort_text) : std::string("compile-error-on-valid-program:x86"), B32->describe(), P, (B32->stage == "emit" || B32->abort_sig) ? nullptr : &B32->cc)) return; }
+    else if (!B32->post.virt_left.empty()) { if (!report(ctx, "virtual-reg-left:x86", "after RA: " + B32->post.virt_left, P, &B32->cc)) return; }
+    else if (B32->post.inserted()) ctx.cls("x86_32_ra_inserted");
+  }
+  if (!G.noa64) {
+    std::unique_ptr<BuiltA64> BA(new BuiltA64());
+    build_a64(*BA, P);
+    ctx.cls("a64_builds"); if (BA->em && BA->em->n_lists) ctx.cls("a64_has_register_list", uint64_t(BA->em->n_lists));
+    if (G.dump) printf("--- a64 ---\n%s\n", format_all(&BA->cc).c_str());
+    if (BA->err != Error::kOk) { if (!report(ctx, BA->abort_sig ? "asmjit-assert:a64:" + assert_site(BA->abort_text) : std::string("compile-error-on-valid-program:a64"), BA->describe(), P, (BA->stage == "emit" || BA->abort_sig) ? nullptr : &BA->cc)) return; }
+    else {
+      if (!BA->post.virt_left.empty()) { if (!report(ctx, "virtual-reg-left:a64", "after RA: " + BA->post.virt_left, P, &BA->cc)) return; }
+      if (!BA->post.bad_list_inst.empty()) { if (!report(ctx, "list-not-consecutive:a64:" + BA->post.bad_list_inst, "after RA: " + BA->post.bad_list_text, P, &BA->cc)) return; }
+      if (BA->post.inserted()) ctx.cls("a64_ra_inserted");
+    }
+  }
+
+
+  bool nontrivial = post.inserted() > 0 || P.n_calls || P.n_switch || P.n_fixed;
+  if (nontrivial) {
+    ctx.nontrivial();
+    if (ctx.want_sample()) {
+      std::string s = show_prog(P); if (s.size() > 1500) s = s.substr(0, 1500) + "...";
+      char b[160]; snprintf(b, sizeof b, "[RA inserted: %d loads %d saves %d moves %d swaps %d reg->mem; %d inputs]\n", post.n_load, post.n_save, post.n_move, post.n_swap, post.n_rm, ninputs);
+      ctx.sample(b + s);
+    }
+  }
+}
+
+// ------------------------------------------------------------------------------------------------
+// Generator
+// ------------------------------------------------------------------------------------------------
+static int pick_kind(int sel) {
+  static const int w[H_COUNT_] = { /*alu*/ 150, /*unary*/ 35, /*imul*/ 35, /*lea*/ 35, /*movx*/ 40, /*shift_i*/ 40, /*shift_cl*/ 45, /*muldiv*/ 45, /*cmpxchg*/ 25, /*xchg*/ 30,
+                                   /*setcc*/ 40, /*cmov*/ 35, /*bt*/ 20, /*cnt*/ 20, /*idiom*/ 90, /*temp*/ 40, /*vgx*/ 30, /*vldst*/ 30, /*valu*/ 50, /*kop*/ 25, /*call*/ 35,
+                                   /*if*/ 30, /*loop*/ 22, /*irr*/ 14, /*switch*/ 16, /*next*/ 30, /*end*/ 45, /*retif*/ 8 };
+  int tot = 0; for (int x : w) tot += x;
+  sel %= tot;
+  for (int i = 0; i < H_COUNT_; i++) { if (sel < w[i]) return i; sel -= w[i]; }
+  return 0;
+}
+
+rc::Gen<vh::Case> vh_gen(const vh::Opts&) {
+  using namespace rc;
+  auto opGen = gen::exec([]() -> vh::Op {
+    vh::Op op; op.push_back(pick_kind(*vh::irange<int>(0, 99999)));
+    int n = 16;
+    for (int i = 0; i < n; i++) {
+      int wide = *vh::irange<int>(0, 9);
+      if (wide == 0) op.push_back(*gen::resize(1000, gen::arbitrary<int64_t>())); else op.push_back(*vh::irange<int64_t>(0, (1 << 20) - 1));
+    }
+    return op;
+  });
+  auto cfgGen = gen::exec([]() -> std::vector<int64_t> {
+    int b = *vh::irange<int>(0, 99);
+    int ng = b < 25 ? *vh::irange<int>(1, 8) : b < 55 ? *vh::irange<int>(9, 20) : b < 85 ? *vh::irange<int>(21, 60) : *vh::irange<int>(61, 200);
+    int nvb = *vh::irange<int>(0, 9);
+    int nv = nvb < 3 ? 0 : nvb < 6 ? *vh::irange<int>(1, 8) : nvb < 8 ? *vh::irange<int>(9, 20) : *vh::irange<int>(21, 40);
+    int pb = *vh::irange<int>(0, 9);
+    int pressure = pb < 5 ? 0 : pb < 8 ? *vh::irange<int>(1, 24) : *vh::irange<int>(25, 200);
+    return { ng, *vh::irange<int>(0, 3), nv, *vh::irange<int>(0, 10), *vh::irange<int>(0, 2), *vh::irange<int>(0, 11), *vh::irange<int>(0, 8) % 5 == 4 ? *vh::irange<int>(0, 8) : 0,
+             *vh::irange<int>(0, 7), pressure, *vh::irange<int>(0, 4), *vh::irange<int64_t>(0, 1 << 30), *vh::irange<int>(0, 3) };
+  });
+  return gen::apply([](std::vector<int64_t> cfg, std::vector<vh::Op> ops) { vh::Case c; c.cfg = std::move(cfg); c.ops = std::move(ops); return c; },
+                    cfgGen, gen::container<std::vector<vh::Op>>(opGen));
+}
+
+// Deterministic enumeration run before the generated cases:
+//  (a) self-test: every op kind alone, many field variants, no pressure (interpreter vs CPU, catches harness semantics errors)
+//  (b) systematic shapes: every pair (outer construct, inner construct) x pressure levels around the register-file sizes.
+static vh::Op enum_op(int kind, uint64_t seed) {
+  vh::Op op; op.push_back(kind);
+  for (int i = 0; i < 16; i++) { uint64_t h = mix64(seed * 131 + uint64_t(i)); op.push_back((h & 15) == 0 ? int64_t(mix64(h)) : int64_t((h >> 8) & 0xFFFFF)); }
+  return op;
+}
+bool vh_enum(const vh::Opts& o, uint64_t k, vh::Case& out) {
+  long variants = o.geti("enum_variants", o.is_thorough() ? 400 : 60);
+  if (variants <= 0) return false;
+  uint64_t idx = k * uint64_t(std::max(1, o.workers)) + uint64_t(o.worker);
+  uint64_t nself = uint64_t(H_CALL + 1) * uint64_t(variants);
+  out = vh::Case();
+  if (idx < nself) {
+    int kind = int(idx % (H_CALL + 1)); int v = int(idx / (H_CALL + 1));
+    out.cfg = { 3 + v % 4, v % 4, 3, 2, (v / 4) % 3, v % 5, 0, 0, 0, 2, v, (v / 3) % 4 };
+    out.ops.push_back(enum_op(kind, uint64_t(idx) + 1));
+    return true;
+  }
+  idx -= nself;
+  static const int shapes[] = {H_IF, H_LOOP, H_IRR, H_SWITCH};
+  static const int pressures[] = {3, 12, 15, 18, 40};
+  uint64_t nshape = 4 * 5 * 5 * 3 * uint64_t(std::max<long>(1, variants / 20));
+  if (idx >= nshape) return false;
+  int outer = int(idx % 4); idx /= 4; int inner = int(idx % 5); idx /= 5; int pr = int(idx % 5); idx /= 5; int vm = int(idx % 3); idx /= 3;
+  uint64_t v = idx;
+  out.cfg = { pressures[pr], int(v % 4), vm ? 4 : 0, 2, vm, int(v % 8), 0, 0, int((v % 3) * 9), 1, int64_t(v + 7), 1 };
+  auto body = [&](int n, uint64_t s) { for (int i = 0; i < n; i++) { uint64_t h = mix64(s + uint64_t(i)); out.ops.push_back(enum_op(int(h % (H_CALL + 1)), h)); } };
+  out.ops.push_back(enum_op(shapes[outer], v * 3 + 1)); body(2, v * 11 + 1);
+  if (inner < 4) { out.ops.push_back(enum_op(shapes[inner], v * 5 + 2)); body(2, v * 13 + 2); out.ops.push_back({H_NEXT}); body(1, v * 17 + 3); out.ops.push_back({H_END}); }
+  if (inner == 4) out.ops.push_back(enum_op(H_RETIF, v * 7 + 3));
+  out.ops.push_back({H_NEXT}); body(2, v * 19 + 4); out.ops.push_back({H_END}); body(1, v * 23 + 5);
+  return true;
+}
+
+namespace {
+
 
 } // namespace
